@@ -1,4 +1,4 @@
-"""typerules - two engines for C36 ("front-end types agree with the IR it emits").
+"""typerules - the engines for C36 ("front-end types agree with the IR it emits").
 
 Part 1  RELATIONAL TYPING RULES, PYTHON vs SCALA  (sibling agreement)
     The Python front end computes the type of every Table/Matrix IR node in `_compute_type`; the engine computes it in the Scala
@@ -23,6 +23,9 @@ Part 1  RELATIONAL TYPING RULES, PYTHON vs SCALA  (sibling agreement)
 
 Part 2  BINDER TYPING  (the type a bound variable is created with vs the type of the value the emitted IR binds to that name)
     see `BinderTable` and `Flow` below.
+
+Part 3  STATIC INDEX DOMAIN (R11)   lower-bound analysis of the python int that indexes a tuple type at every GetTupleElement construction
+Part 4  CHILDREN AGREE (R12)        agreement facts, path by path, for the children of union-like relational nodes vs TypeCheck.scala
 
 Nothing is imported or executed from the repository.  Unknown shapes become opaque terms ('?', reason) / AnalysisError - never a verdict.
 """
@@ -4262,3 +4265,2130 @@ def struct_primitive_checks() -> List[Tuple[str, bool, str]]:
         raise AnalysisError(f'{TYPES_PY}::tstruct._rename: unexpected signature')
     expect('_rename', ('maporder', ('fields', 'self'), p[0]), 'TStruct.rename: struct order')
     return out
+
+
+# ======================================================================================================================
+# Part 3: STATIC INDEX DOMAIN  (C36 R11)
+# ======================================================================================================================
+#
+# Some IR nodes carry a *python int* (not an IR child) that selects a component of a child's type: GetTupleElement(o, idx) is typed
+# by the front end as `o.typ.types[idx]` - subscription of a python tuple, defined on [-n, n) with wrap-around for negative idx -
+# while the engine types it as `t.fields(t.fieldIndex(idx))`, a lookup in the map of DECLARED field indices (0..n-1 for every
+# tuple type the front end can denote).  On [0, n) both agree; on [-n, 0) the front end reports the type of element n+idx and the
+# engine has no type at all.  So every emission site of such a node must be reached only with idx >= 0 (idx >= n makes python's own
+# subscription raise: nothing is sent).  Decided per site by a path-sensitive lower-bound analysis of the index expression over
+# linear forms in the symbols len(...) >= 0: guards (`if not 0 <= i < len(x): raise`), normalisation (`if i < 0: i += len(x)`),
+# range()/enumerate() loop variables, constants, the node's own attribute (rebuild in copy).  No code is evaluated on sample values;
+# a concrete index is printed only as the witness of an established violation.
+
+TYPE_INFER_SCALA = 'hail/hail/src/is/hail/expr/ir/InferType.scala'
+TYPECHECK_SCALA = 'hail/hail/src/is/hail/expr/ir/TypeCheck.scala'
+TTUPLE_SCALA = 'hail/hail/src/is/hail/types/virtual/TTuple.scala'
+
+
+_arm_cache: Dict[Tuple[str, int], List[Tuple[str, int, int]]] = {}
+
+
+def scala_match_arm(rel: str, ctor: str) -> Tuple[sl.ScalaSource, Optional[Tuple[str, int, int]]]:
+    """The first `case [x @] ctor(...) =>` arm of a Scala file, wherever its `match` block is: (pattern, body lo, body hi) or None."""
+    S = sl.load(rel)
+    for m in re.finditer(r'\bcase\s+(?:\w+\s*@\s*)?' + re.escape(ctor) + r'\s*\(', S.code):
+        # enclosing block: the nearest unmatched `{` to the left
+        depth = 0
+        b = m.start() - 1
+        while b >= 0:
+            c = S.code[b]
+            if c in ')]}':
+                depth += 1
+            elif c in '([{':
+                if depth == 0:
+                    break
+                depth -= 1
+            b -= 1
+        if b < 0 or S.code[b] != '{':
+            continue
+        key = (rel, b)
+        if key not in _arm_cache:
+            _arm_cache[key] = S.case_arms(b + 1, S.match_bracket(b))
+        for pat, blo, bhi in _arm_cache[key]:
+            head = pat.split('(')[0].strip()
+            if '@' in head:
+                head = head.split('@')[-1].strip()
+            if head == ctor:
+                return S, (pat, blo, bhi)
+    return S, None
+
+
+def _arm_items(S: sl.ScalaSource, arm: Tuple[str, int, int], where: str) -> List[tuple]:
+    _, lo, hi = arm
+    p = ScalaParser(sc_tokenize(S.nocomment[lo:hi], lo, where), where)
+    items = p.block_items()
+    return items
+
+
+def _pattern_vars(pat: str) -> List[str]:
+    inner = pat[pat.index('(') + 1:pat.rindex(')')]
+    return [x.strip() for x in inner.split(',')]
+
+
+def _sc_walk(t: Any) -> Iterable[tuple]:
+    if isinstance(t, tuple):
+        yield t
+        for x in t:
+            yield from _sc_walk(x)
+    elif isinstance(t, list):
+        for x in t:
+            yield from _sc_walk(x)
+
+
+class IndexedNode:
+    def __init__(self, cls: ic.Cls, param: str, pos: int, py_rule: str, engine_rule: str):
+        self.cls = cls
+        self.param = param
+        self.pos = pos
+        self.py_rule = py_rule
+        self.engine_rule = engine_rule
+
+
+def _ttuple_types_is_python_tuple() -> None:
+    """ttuple.types returns the tuple of the constructor's *varargs: python subscription semantics (negative indices wrap around)."""
+    m = pf.load(TYPES_PY)
+    c = m.cls('ttuple')
+    fns = {f.name: f for f in c.body if isinstance(f, ast.FunctionDef)}
+    init, prop = fns.get('__init__'), fns.get('types')
+    ok = False
+    if init is not None and prop is not None and init.args.vararg is not None:
+        rets = [s.value for s in pf.walk_shallow(prop) if isinstance(s, ast.Return)]
+        if len(rets) == 1 and ic._self_attr(rets[0]):
+            attr = ic._self_attr(rets[0])
+            for st in pf.walk_shallow(init):
+                if isinstance(st, ast.Assign) and len(st.targets) == 1 and ic._self_attr(st.targets[0]) == attr:
+                    v = st.value
+                    if isinstance(v, ast.Call) and pf.dotted(v.func) in ('tuple', 'list') and len(v.args) == 1:
+                        v = v.args[0]
+                    ok = isinstance(v, ast.Name) and v.id == init.args.vararg.arg
+    if not ok:
+        raise AnalysisError(f'{TYPES_PY}::ttuple.types: no longer the tuple of the constructor varargs (python sequence semantics not established)')
+
+
+def indexed_nodes(table: ic.Table) -> List[IndexedNode]:
+    """IR classes whose python typing rule subscripts `<child>.typ.types` with an int constructor parameter, paired with the
+    engine rule read from InferType.scala (must look the same parameter up in the declared-index map / positional field list)."""
+    out: List[IndexedNode] = []
+    for cls in table.ir_classes():
+        if '_compute_type' not in cls.methods:
+            continue
+        fn = cls.methods['_compute_type']
+        r = cls.resolve('__init__')
+        if r is None:
+            continue
+        init = r[1]
+        params = [a.arg for a in init.args.args[1:]]
+        declared_int = set()
+        for dec in init.decorator_list:
+            if isinstance(dec, ast.Call) and pf.dotted(dec.func) == 'typecheck_method':
+                for kw in dec.keywords:
+                    if kw.arg and isinstance(kw.value, ast.Name) and kw.value.id == 'int':
+                        declared_int.add(kw.arg)
+        a2p = _ctor_attr_map(cls)
+        for n in ast.walk(fn):
+            if not (isinstance(n, ast.Subscript) and not isinstance(n.slice, ast.Slice)):
+                continue
+            attr = ic._self_attr(n.slice)
+            if attr is None or a2p.get(attr, attr) not in declared_int:
+                continue
+            prm = a2p.get(attr, attr)
+            base = n.value
+            if not (isinstance(base, ast.Attribute) and base.attr == 'types'):
+                raise AnalysisError(f'{cls.key("_compute_type")}: `{pf.nsrc(n)}` subscripts an unrecognised sequence with the int parameter `{prm}`')
+            _ttuple_types_is_python_tuple()
+            S, arm = scala_match_arm(TYPE_INFER_SCALA, cls.name)
+            if arm is None:
+                raise AnalysisError(f'{TYPE_INFER_SCALA}: no typing rule for {cls.name}')
+            pvars = _pattern_vars(arm[0])
+            pos = params.index(prm)
+            if pos >= len(pvars) or not pvars[pos].isidentifier():
+                raise AnalysisError(f'{TYPE_INFER_SCALA}: `case {arm[0]}` does not bind parameter #{pos} ({prm})')
+            v = pvars[pos]
+            items = _arm_items(S, arm, f'{TYPE_INFER_SCALA}::{cls.name}')
+            how = None
+            for t in _sc_walk(items):
+                if t[0] == 'call' and isinstance(t[1], tuple) and t[1][0] == 'sel' and t[1][2] in ('fieldIndex', 'fields', 'types') and len(t[2]) == 1 and t[2][0][1] == ('id', v):
+                    how = t[1][2]
+                    break
+            if how is None:
+                raise AnalysisError(f'{TYPE_INFER_SCALA}: `case {arm[0]}`: the engine rule does not look `{v}` up in fieldIndex / fields / types - unrecognised')
+            eng = ('a lookup of the index in TTuple.fieldIndex, the map of declared field indices (0..n-1)' if how == 'fieldIndex'
+                   else f'positional `{how}({v})` (IndexedSeq.apply: defined on 0..n-1 only)')
+            out.append(IndexedNode(cls, prm, pos, pf.nsrc(n), eng))
+    return out
+
+
+# ---- linear lower/upper bounds over symbols len(..) >= 0 -----------------------------------------------------------------------
+
+class LinB:
+    """c + sum k_s * s over symbols s (normalised source of a len(...) expression, value >= 0) ; `free` symbols have unknown sign."""
+
+    def __init__(self, c: int = 0, coef: Optional[Dict[str, int]] = None):
+        self.c = c
+        self.coef = {k: v for k, v in (coef or {}).items() if v}
+
+    def add(self, o: 'LinB', k: int = 1) -> 'LinB':
+        d = dict(self.coef)
+        for s, v in o.coef.items():
+            d[s] = d.get(s, 0) + k * v
+        return LinB(self.c + k * o.c, d)
+
+    def key(self) -> tuple:
+        return (self.c, tuple(sorted(self.coef.items())))
+
+    def nonneg(self) -> bool:
+        """>= 0 for every valuation of the (non-negative) symbols."""
+        return self.c >= 0 and all(v >= 0 and s.startswith('len(') for s, v in self.coef.items())
+
+    def show(self) -> str:
+        parts = []
+        for s, v in sorted(self.coef.items()):
+            parts.append(('-' if v < 0 else '+') + ('' if abs(v) == 1 else f'{abs(v)}*') + s)
+        if self.c or not parts:
+            parts.append(('-' if self.c < 0 else '+') + str(abs(self.c)))
+        txt = ' '.join(parts)
+        return txt[1:].strip() if txt.startswith('+') else txt
+
+
+class IdxState:
+    def __init__(self) -> None:
+        self.lows: Dict[str, List[LinB]] = {}
+        self.highs: Dict[str, List[LinB]] = {}
+        self.unknown: Dict[str, str] = {}
+        self.nonint: Set[str] = set()
+        self.guards: List[str] = []
+
+    def copy(self) -> 'IdxState':
+        s = IdxState()
+        s.lows = {k: list(v) for k, v in self.lows.items()}
+        s.highs = {k: list(v) for k, v in self.highs.items()}
+        s.unknown = dict(self.unknown)
+        s.nonint = set(self.nonint)
+        s.guards = list(self.guards)
+        return s
+
+    def key(self) -> tuple:
+        return (tuple(sorted((k, tuple(sorted(x.key() for x in v))) for k, v in self.lows.items())),
+                tuple(sorted((k, tuple(sorted(x.key() for x in v))) for k, v in self.highs.items())),
+                tuple(sorted(self.unknown.items())), tuple(sorted(self.nonint)))
+
+
+class IdxVerdict:
+    def __init__(self, status: str, detail: str):
+        self.status = status  # ok | bad | und
+        self.detail = detail
+
+
+class IdxProof:
+    """Is `expr` (the index argument of `call`) >= 0 whenever `call` is evaluated inside `fn`?"""
+
+    MAX_STATES = 64
+
+    def __init__(self, mod: pf.Module, fn: Optional[pf.FuncDef], call: ast.Call, expr: ast.AST, depth: int = 0):
+        self.mod = mod
+        self.fn = fn
+        self.call = call
+        self.expr = expr
+        self.depth = depth
+        self.par = mod.parents()
+        self.verdicts: List[IdxVerdict] = []
+        self.tracked: Set[str] = set()
+
+    # -- expressions ----------------------------------------------------------------------------------------------------
+    def lin(self, e: ast.AST, st: IdxState, bound: Dict[str, Tuple[Optional[LinB], Optional[LinB]]]) -> Optional[Tuple[LinB, Dict[str, int]]]:
+        """e as (constant part over len-symbols, coefficients of program variables); None when not linear."""
+        if isinstance(e, ast.Constant) and isinstance(e.value, int) and not isinstance(e.value, bool):
+            return LinB(e.value), {}
+        if isinstance(e, ast.Call) and pf.dotted(e.func) in ('len', 'builtins.len') and len(e.args) == 1 and not e.keywords:
+            return LinB(0, {f'len({pf.nsrc(e.args[0])})': 1}), {}
+        if isinstance(e, ast.Name):
+            return LinB(0), {e.id: 1}
+        if isinstance(e, ast.UnaryOp) and isinstance(e.op, (ast.USub, ast.UAdd)):
+            r = self.lin(e.operand, st, bound)
+            if r is None:
+                return None
+            k = -1 if isinstance(e.op, ast.USub) else 1
+            return LinB().add(r[0], k), {v: k * c for v, c in r[1].items()}
+        if isinstance(e, ast.BinOp) and isinstance(e.op, (ast.Add, ast.Sub)):
+            a, b = self.lin(e.left, st, bound), self.lin(e.right, st, bound)
+            if a is None or b is None:
+                return None
+            k = 1 if isinstance(e.op, ast.Add) else -1
+            d = dict(a[1])
+            for v, c in b[1].items():
+                d[v] = d.get(v, 0) + k * c
+            return a[0].add(b[0], k), {v: c for v, c in d.items() if c}
+        return None
+
+    # -- tests ----------------------------------------------------------------------------------------------------------
+    def mentions(self, e: ast.AST) -> bool:
+        return bool(pf.names_in(e) & self.tracked)
+
+    def constrain(self, st: IdxState, atom: ast.AST, pol: bool) -> None:
+        """Record what `atom == pol` says about the tracked variables (or mark them unknown)."""
+        if not self.mentions(atom):
+            return
+        if isinstance(atom, ast.Call) and pf.dotted(atom.func) == 'isinstance' and len(atom.args) == 2 and isinstance(atom.args[0], ast.Name):
+            v = atom.args[0].id
+            kinds = {n.id for n in ast.walk(atom.args[1]) if isinstance(n, ast.Name)}
+            if pol and 'int' not in kinds:
+                st.nonint.add(v)
+            return
+        if isinstance(atom, ast.Compare) and len(atom.ops) == 1 and isinstance(atom.ops[0], (ast.Is, ast.IsNot)):
+            return  # `x is None`: not a statement about an integer value
+        if isinstance(atom, ast.Compare) and len(atom.ops) == 1 and isinstance(atom.ops[0], (ast.Lt, ast.LtE, ast.Gt, ast.GtE, ast.Eq, ast.NotEq)):
+            a, b = self.lin(atom.left, st, {}), self.lin(atom.comparators[0], st, {})
+            op = type(atom.ops[0])
+            if not pol:
+                op = {ast.Lt: ast.GtE, ast.LtE: ast.Gt, ast.Gt: ast.LtE, ast.GtE: ast.Lt, ast.Eq: ast.NotEq, ast.NotEq: ast.Eq}[op]
+            if a is not None and b is not None:
+                # a - b  (op) 0 ; isolate a single tracked variable with coefficient +-1
+                d = dict(a[1])
+                for v, c in b[1].items():
+                    d[v] = d.get(v, 0) - c
+                d = {v: c for v, c in d.items() if c}
+                const = a[0].add(b[0], -1)
+                tv = [v for v in d if v in self.tracked]
+                others = [v for v in d if v not in self.tracked]
+                if len(tv) == 1 and abs(d[tv[0]]) == 1:
+                    v = tv[0]
+                    k = d[v]
+                    rest = const
+                    for o in others:
+                        rest = rest.add(LinB(0, {f'var({o})': d[o]}))
+                    # k*v + rest (op) 0
+                    if op is ast.NotEq:
+                        return
+                    if k == -1:
+                        # -v + rest op 0  <=>  v (flip op) rest
+                        op = {ast.Lt: ast.Gt, ast.LtE: ast.GtE, ast.Gt: ast.Lt, ast.GtE: ast.LtE, ast.Eq: ast.Eq}[op]
+                        bound_ = rest
+                    else:
+                        bound_ = LinB().add(rest, -1)
+                    # now: v op bound_
+                    if op in (ast.GtE, ast.Eq):
+                        st.lows.setdefault(v, []).append(bound_)
+                    if op is ast.Gt:
+                        st.lows.setdefault(v, []).append(bound_.add(LinB(1)))
+                    if op in (ast.LtE, ast.Eq):
+                        st.highs.setdefault(v, []).append(bound_)
+                    if op is ast.Lt:
+                        st.highs.setdefault(v, []).append(bound_.add(LinB(-1)))
+                    st.guards.append(('' if pol else 'not ') + pf.nsrc(atom))
+                    return
+        for v in pf.names_in(atom) & self.tracked:
+            st.unknown.setdefault(v, f'unrecognised test `{pf.nsrc(atom)}`')
+
+    def dnf(self, test: ast.AST, pol: bool) -> List[List[Tuple[ast.AST, bool]]]:
+        if isinstance(test, ast.UnaryOp) and isinstance(test.op, ast.Not):
+            return self.dnf(test.operand, not pol)
+        if isinstance(test, ast.Compare) and len(test.ops) > 1:
+            parts = ic.split_compare(test)
+            test = ast.BoolOp(op=ast.And(), values=parts)
+        if isinstance(test, ast.BoolOp):
+            conj = isinstance(test.op, ast.And) == pol
+            if conj:
+                acc: List[List[Tuple[ast.AST, bool]]] = [[]]
+                for v in test.values:
+                    alts = self.dnf(v, pol)
+                    acc = [x + y for x in acc for y in alts]
+                return acc
+            out: List[List[Tuple[ast.AST, bool]]] = []
+            prefix: List[Tuple[ast.AST, bool]] = []
+            for v in test.values:
+                for alt in self.dnf(v, pol):
+                    out.append(prefix + alt)
+                # later alternatives assume this one failed (keeps the paths disjoint); only simple atoms are negated
+                neg = self.dnf(v, not pol)
+                if len(neg) == 1:
+                    prefix = prefix + neg[0]
+            return out
+        return [[(test, pol)]]
+
+    def branch(self, st: IdxState, test: ast.AST, pol: bool) -> List[IdxState]:
+        if not self.mentions(test):
+            return [st.copy()]
+        out = []
+        for conj in self.dnf(test, pol):
+            s = st.copy()
+            for atom, p in conj:
+                self.constrain(s, atom, p)
+            if self.feasible(s):
+                out.append(s)
+        return out
+
+    def feasible(self, st: IdxState) -> bool:
+        """Drop states whose bounds on a variable are contradictory for every value of the symbols (lo > hi with lo - hi a positive constant)."""
+        for v, lows in st.lows.items():
+            for lo in lows:
+                for hi in st.highs.get(v, []):
+                    d = hi.add(lo, -1)
+                    if not d.coef and d.c < 0:
+                        return False
+                    if d.c < 0 and all(k <= 0 and s.startswith('len(') for s, k in d.coef.items()):
+                        return False
+        return True
+
+    # -- statements -----------------------------------------------------------------------------------------------------
+    def contains(self, node: ast.AST) -> bool:
+        return any(n is self.call for n in ast.walk(node))
+
+    def assigns_tracked(self, node: ast.AST) -> bool:
+        for n in ast.walk(node):
+            if isinstance(n, ast.Name) and isinstance(n.ctx, (ast.Store, ast.Del)) and n.id in self.tracked:
+                return True
+        return False
+
+    def assign(self, st: IdxState, name: str, value: ast.AST, aug: Optional[ast.operator] = None) -> None:
+        if aug is not None:
+            value = ast.BinOp(left=ast.Name(id=name, ctx=ast.Load()), op=aug, right=value)
+        # v % len(x): in [0, len-1] (raises when len == 0)
+        if isinstance(value, ast.BinOp) and isinstance(value.op, ast.Mod):
+            r = self.lin(value.right, st, {})
+            if r is not None and not r[1] and r[0].nonneg():
+                st.lows[name] = [LinB(0)]
+                st.highs[name] = [r[0].add(LinB(-1))]
+                st.unknown.pop(name, None)
+                return
+        if isinstance(value, ast.Call) and pf.dotted(value.func) in ('abs', 'builtins.abs') and len(value.args) == 1:
+            st.lows[name] = [LinB(0)]
+            st.highs[name] = []
+            st.unknown.pop(name, None)
+            return
+        if isinstance(value, ast.Call) and pf.dotted(value.func) in ('max', 'builtins.max') and len(value.args) == 2 and not value.keywords:
+            ls = [self.lin(a, st, {}) for a in value.args]
+            consts = [x[0] for x in ls if x is not None and not x[1]]
+            if consts:
+                st.lows[name] = consts
+                st.highs[name] = []
+                st.unknown.pop(name, None)
+                return
+        r = self.lin(value, st, {})
+        if r is not None:
+            base, vs = r
+            if not vs:
+                st.lows[name] = [base]
+                st.highs[name] = [base]
+                st.unknown.pop(name, None)
+                return
+            if set(vs) == {name} and vs[name] == 1:
+                st.lows[name] = [x.add(base) for x in st.lows.get(name, [])]
+                st.highs[name] = [x.add(base) for x in st.highs.get(name, [])]
+                return
+            if len(vs) == 1 and list(vs.values())[0] == 1 and list(vs)[0] in self.tracked:
+                o = list(vs)[0]
+                st.lows[name] = [x.add(base) for x in st.lows.get(o, [])]
+                st.highs[name] = [x.add(base) for x in st.highs.get(o, [])]
+                if o in st.unknown:
+                    st.unknown[name] = st.unknown[o]
+                else:
+                    st.unknown.pop(name, None)
+                return
+        st.lows[name] = []
+        st.highs[name] = []
+        st.unknown[name] = f're-assigned from `{pf.nsrc(value)}`'
+
+    def loop_var_bounds(self, target: ast.AST, it: ast.AST, st: IdxState) -> Dict[str, Tuple[Optional[List[LinB]], Optional[str]]]:
+        """Bounds of integer loop / comprehension variables: name -> (lower bounds | None, reason when unknown)."""
+        out: Dict[str, Tuple[Optional[List[LinB]], Optional[str]]] = {}
+        names = [n.id for n in ast.walk(target) if isinstance(n, ast.Name)]
+        d = pf.dotted(it.func) if isinstance(it, ast.Call) else None
+        if isinstance(it, ast.Subscript) and isinstance(it.slice, ast.Slice) and isinstance(it.value, ast.Call) and pf.dotted(it.value.func) in ('range', 'builtins.range'):
+            # a slice of range(...) only contains members of that range
+            return self.loop_var_bounds(target, it.value, st)
+        if d in ('range', 'builtins.range') and isinstance(target, ast.Name) and not it.keywords and 1 <= len(it.args) <= 3:
+            if len(it.args) == 1:
+                out[target.id] = ([LinB(0)], None)
+                return out
+            lo = self.lin(it.args[0], st, {})
+            step_ok = len(it.args) == 2 or (isinstance(it.args[2], ast.Constant) and isinstance(it.args[2].value, int) and it.args[2].value > 0)
+            if lo is not None and not lo[1] and step_ok:
+                out[target.id] = ([lo[0]], None)
+                return out
+            if lo is not None and step_ok and len(lo[1]) == 1 and list(lo[1].values())[0] == 1 and list(lo[1])[0] in self.tracked:
+                o = list(lo[1])[0]
+                if o not in st.unknown:
+                    out[target.id] = ([x.add(lo[0]) for x in st.lows.get(o, [])], None)
+                    return out
+            out[target.id] = (None, f'loop over `{pf.nsrc(it)}`')
+            return out
+        if d in ('enumerate', 'builtins.enumerate') and isinstance(target, ast.Tuple) and len(target.elts) == 2 and isinstance(target.elts[0], ast.Name):
+            start = 0
+            ok = True
+            extra = list(it.args[1:]) + [k.value for k in it.keywords]
+            if extra:
+                ok = len(extra) == 1 and isinstance(extra[0], ast.Constant) and isinstance(extra[0].value, int)
+                start = extra[0].value if ok else 0
+            out[target.elts[0].id] = ([LinB(start)], None) if ok else (None, f'loop over `{pf.nsrc(it)}`')
+            for n in names:
+                out.setdefault(n, (None, f'element of `{pf.nsrc(it)}`'))
+            return out
+        for n in names:
+            out[n] = (None, f'element of `{pf.nsrc(it)}`')
+        return out
+
+    def bind_loop(self, st: IdxState, target: ast.AST, it: ast.AST) -> None:
+        for n, (lows, why) in self.loop_var_bounds(target, it, st).items():
+            if n not in self.tracked:
+                continue
+            st.highs[n] = []
+            if lows is None:
+                st.lows[n] = []
+                st.unknown[n] = why or 'loop variable'
+            else:
+                st.lows[n] = list(lows)
+                st.unknown.pop(n, None)
+
+    def block(self, stmts: Sequence[ast.stmt], states: List[IdxState]) -> List[IdxState]:
+        for s in stmts:
+            if not states:
+                return []
+            nxt: List[IdxState] = []
+            for st in states:
+                nxt += self.stmt(s, st)
+            seen: Dict[tuple, IdxState] = {}
+            for st in nxt:
+                seen.setdefault(st.key(), st)
+            states = list(seen.values())
+            if len(states) > self.MAX_STATES:
+                raise AnalysisError(f'{self.mod.rel}: too many paths while bounding `{pf.nsrc(self.expr)}`')
+        return states
+
+    def stmt(self, s: ast.stmt, st: IdxState) -> List[IdxState]:
+        if isinstance(s, (ast.FunctionDef, ast.AsyncFunctionDef, ast.ClassDef)):
+            if self.contains(s):
+                # the emission is inside a nested function: evaluated with the bindings at definition time or later - parameters of
+                # the nested function shadow; tracked outer variables keep the bounds established so far only if never re-assigned
+                self.at_target(st, s)
+            return [st]
+        if isinstance(s, ast.If):
+            if self.contains(s.test):
+                self.at_target(st, s.test)
+            if not (self.mentions(s.test) or self.contains(s) or self.assigns_tracked(s)):
+                return [st]
+            self.escapes(s.test, st)
+            t = self.block(s.body, self.branch(st, s.test, True))
+            f = self.block(s.orelse, self.branch(st, s.test, False))
+            return t + f
+        if isinstance(s, (ast.Return, ast.Raise)):
+            if self.contains(s):
+                self.at_target(st, s)
+            return []
+        if isinstance(s, (ast.Continue, ast.Break)):
+            return []
+        if isinstance(s, ast.Assert):
+            if self.contains(s):
+                self.at_target(st, s)
+            return self.branch(st, s.test, True)
+        if isinstance(s, (ast.For, ast.AsyncFor)):
+            if self.contains(s.iter):
+                self.at_target(st, s.iter)
+            if not (self.contains(s) or self.assigns_tracked(s)):
+                return [st]
+            if self.assigns_tracked(s.target) or self.contains(s):
+                body_st = st.copy()
+                # variables re-assigned in the body may carry values of an earlier iteration
+                for n in self.tracked:
+                    if any(isinstance(x, ast.Name) and x.id == n and isinstance(x.ctx, ast.Store) for b in s.body for x in ast.walk(b)):
+                        body_st.lows[n] = []
+                        body_st.highs[n] = []
+                        body_st.unknown[n] = 're-assigned inside a loop'
+                self.bind_loop(body_st, s.target, s.iter)
+                self.block(s.body, [body_st])
+            after = st.copy()
+            for n in self.tracked:
+                if any(isinstance(x, ast.Name) and x.id == n and isinstance(x.ctx, ast.Store) for x in ast.walk(s)):
+                    after.lows[n] = []
+                    after.highs[n] = []
+                    after.unknown[n] = 're-assigned inside a loop'
+            return self.block(s.orelse, [after]) if s.orelse else [after]
+        if isinstance(s, (ast.While, ast.Try, ast.With, ast.AsyncWith)) or (hasattr(ast, 'Match') and isinstance(s, ast.Match)):
+            if self.contains(s) or self.assigns_tracked(s):
+                if isinstance(s, (ast.With, ast.AsyncWith)) and not any(self.contains(i.context_expr) for i in s.items):
+                    return self.block(s.body, [st])
+                raise AnalysisError(f'{self.mod.rel}:{s.lineno}: the index `{pf.nsrc(self.expr)}` is used or assigned inside a {type(s).__name__} statement - not analysed')
+            return [st]
+        # simple statements
+        if self.contains(s):
+            self.at_target(st, s)
+        self.escapes(s, st)
+        if isinstance(s, ast.Assign) and len(s.targets) == 1 and isinstance(s.targets[0], ast.Name) and s.targets[0].id in self.tracked:
+            self.assign(st, s.targets[0].id, s.value)
+        elif isinstance(s, ast.AugAssign) and isinstance(s.target, ast.Name) and s.target.id in self.tracked:
+            self.assign(st, s.target.id, s.value, s.op)
+        elif isinstance(s, ast.AnnAssign) and isinstance(s.target, ast.Name) and s.target.id in self.tracked and s.value is not None:
+            self.assign(st, s.target.id, s.value)
+        elif self.assigns_tracked(s):
+            for n in self.tracked:
+                if any(isinstance(x, ast.Name) and x.id == n and isinstance(x.ctx, (ast.Store, ast.Del)) for x in ast.walk(s)):
+                    st.lows[n] = []
+                    st.highs[n] = []
+                    st.unknown[n] = f'assigned by `{pf.nsrc(s)[:60]}`'
+        return [st]
+
+    PURE_CALLS = ('len', 'range', 'isinstance', 'int', 'str', 'repr', 'print', 'type', 'format', 'slice', 'enumerate', 'min', 'abs', 'max', 'list', 'tuple')
+
+    def escapes(self, node: ast.AST, st: IdxState) -> None:
+        """A tracked variable handed to a function we do not know may be validated (or rejected) there: its bounds are no longer
+        'all there is' - the variable becomes undecidable rather than unguarded."""
+        for c in pf.walk_shallow(node):
+            if not isinstance(c, ast.Call) or c is self.call or any(n is self.call for n in ast.walk(c)):
+                continue
+            d = pf.dotted(c.func) or ''
+            if d.split('.')[-1] in self.PURE_CALLS or (isinstance(c.func, ast.Attribute) and c.func.attr == 'format'):
+                continue
+            for a in list(c.args) + [k.value for k in c.keywords]:
+                if isinstance(a, ast.Starred):
+                    a = a.value
+                if isinstance(a, ast.Name) and a.id in self.tracked:
+                    st.unknown.setdefault(a.id, f'passed to `{pf.nsrc(c.func)}(...)`, which may validate it')
+
+    # -- the obligation at the emission -----------------------------------------------------------------------------------
+    def at_target(self, st0: IdxState, holder: ast.AST) -> None:
+        st = st0.copy()
+        # comprehension / lambda / nested-def binders between the holder statement and the call
+        chain = []
+        cur: Optional[ast.AST] = self.call
+        while cur is not None and cur is not holder:
+            chain.append(cur)
+            cur = self.par.get(cur)
+        for node in reversed(chain):
+            if isinstance(node, (ast.ListComp, ast.SetComp, ast.GeneratorExp, ast.DictComp)):
+                for g in node.generators:
+                    if any(n is self.call for n in ast.walk(g.iter)):
+                        break
+                    self.bind_loop(st, g.target, g.iter)
+                    for cond in g.ifs:
+                        if not any(n is self.call for n in ast.walk(cond)):
+                            for conj in self.dnf(cond, True)[:1] if len(self.dnf(cond, True)) == 1 else []:
+                                for atom, p in conj:
+                                    self.constrain(st, atom, p)
+            elif isinstance(node, (ast.Lambda, ast.FunctionDef, ast.AsyncFunctionDef)):
+                a = node.args
+                for x in a.posonlyargs + a.args + a.kwonlyargs + ([a.vararg] if a.vararg else []) + ([a.kwarg] if a.kwarg else []):
+                    if x.arg in self.tracked:
+                        st.lows[x.arg] = []
+                        st.highs[x.arg] = []
+                        st.unknown[x.arg] = f'parameter of a nested function / lambda'
+                if isinstance(node, (ast.FunctionDef, ast.AsyncFunctionDef)) and node is not holder:
+                    for n in self.tracked:
+                        if any(isinstance(x, ast.Name) and x.id == n and isinstance(x.ctx, ast.Store) for x in ast.walk(node)):
+                            st.unknown[n] = 're-assigned inside a nested function'
+        if isinstance(holder, (ast.FunctionDef, ast.AsyncFunctionDef)):
+            for n in self.tracked:
+                if any(isinstance(x, ast.Name) and x.id == n and isinstance(x.ctx, ast.Store) for x in ast.walk(holder)):
+                    st.unknown[n] = 're-assigned inside a nested function'
+                a = holder.args
+                if any(x.arg == n for x in a.posonlyargs + a.args + a.kwonlyargs):
+                    st.unknown[n] = 'parameter of a nested function'
+        self.verdicts.append(self.decide(st))
+
+    def decide(self, st: IdxState) -> IdxVerdict:
+        r = self.lin(self.expr, st, {})
+        if r is None:
+            return IdxVerdict('und', f'the index `{pf.nsrc(self.expr)}` is not a linear expression')
+        base, vs = r
+        if not vs:
+            if base.nonneg():
+                return IdxVerdict('ok', f'{base.show()} >= 0')
+            if not base.coef:
+                return IdxVerdict('bad', f'the index is the negative constant {base.c}')
+            return IdxVerdict('und', f'sign of `{base.show()}` not decided')
+        for v in vs:
+            if v in st.nonint:
+                return IdxVerdict('ok', f'`{v}` is not an int on this path')
+        # lower bound of the whole expression
+        if all(c > 0 for c in vs.values()):
+            choices: List[LinB] = [base]
+            proven = True
+            for v, c in vs.items():
+                good = [lo for lo in st.lows.get(v, []) if True]
+                best = None
+                for lo in good:
+                    cand = [x.add(lo, c) for x in choices]
+                    if all(x.nonneg() for x in cand):
+                        best = cand
+                        break
+                if best is None:
+                    proven = False
+                    break
+                choices = best
+            if proven:
+                how = ', '.join(st.guards) if st.guards else 'loop / constant bounds'
+                return IdxVerdict('ok', f'>= {choices[0].show()} ({how})')
+        unk = [f'`{v}`: {st.unknown[v]}' for v in vs if v in st.unknown]
+        if unk:
+            return IdxVerdict('und', '; '.join(unk))
+        # refutation: single variable, coefficient 1, every constraint on it recognised: is there a value with expr <= -1 ?
+        if len(vs) == 1 and list(vs.values())[0] == 1:
+            v = list(vs)[0]
+            if v not in self.tracked:
+                return IdxVerdict('und', f'`{v}` is not a parameter or local of the emitting function')
+            lows = st.lows.get(v, [])
+            highs = list(st.highs.get(v, [])) + [LinB(-1).add(base, -1)]     # v + base <= -1
+            syms = set()
+            for x in lows + highs:
+                syms |= set(x.coef)
+            if any(not s.startswith('len(') for s in syms) or len(syms) > 1:
+                return IdxVerdict('und', f'bounds on `{v}` involve {sorted(syms)}')
+            sym = next(iter(syms), None)
+            # find the smallest value n >= 1 of the symbol for which  max(lows) <= min(highs)  (each pair is a half-line in n)
+            lo_n, hi_n = 1, None
+            for lo in lows:
+                for hi in highs:
+                    d = hi.add(lo, -1)      # must be >= 0
+                    k = d.coef.get(sym, 0) if sym else 0
+                    if k == 0:
+                        if d.c < 0:
+                            return IdxVerdict('ok', f'no negative value of `{v}` satisfies {", ".join(st.guards)}')
+                    elif k > 0:
+                        need = -(-(-d.c) // k) if d.c < 0 else 0      # ceil(-c / k)
+                        lo_n = max(lo_n, need)
+                    else:
+                        lim = d.c // (-k)
+                        hi_n = lim if hi_n is None else min(hi_n, lim)
+            if hi_n is not None and hi_n < lo_n:
+                return IdxVerdict('ok', f'no negative value of `{v}` satisfies {", ".join(st.guards)}')
+            n = lo_n
+            val = lambda x: x.c + (x.coef.get(sym, 0) * n if sym else 0)
+            wit = min(val(h) for h in highs)
+            guards = 'the only conditions on it: ' + ', '.join(st.guards) if st.guards else 'no guard on it'
+            rng = ''
+            if lows:
+                rng = f'; `{v}` >= {" and >= ".join(x.show() for x in lows)} is all that is established'
+            size = f' when {sym} = {n}' if sym else ''
+            return IdxVerdict('bad', f'reached with `{v}` = {wit}{size} ({guards}{rng})')
+        return IdxVerdict('und', f'no non-negative lower bound derived for `{pf.nsrc(self.expr)}`')
+
+    # -- driver ---------------------------------------------------------------------------------------------------------
+    def run(self) -> IdxVerdict:
+        e = self.expr
+        if isinstance(e, ast.Constant) and isinstance(e.value, int) and not isinstance(e.value, bool):
+            return IdxVerdict('ok', f'constant {e.value}') if e.value >= 0 else IdxVerdict('bad', f'the index is the negative constant {e.value}')
+        if self.fn is None:
+            return IdxVerdict('und', 'emission at module level')
+        names = pf.names_in(e)
+        self.tracked = set(names)
+        # locals defined from other variables: track those too (one level)
+        for _ in range(3):
+            more = set()
+            for s in pf.walk_shallow(self.fn):
+                if isinstance(s, ast.Assign) and len(s.targets) == 1 and isinstance(s.targets[0], ast.Name) and s.targets[0].id in self.tracked:
+                    r = self.lin(s.value, IdxState(), {})
+                    if r is not None:
+                        more |= set(r[1])
+            if more <= self.tracked:
+                break
+            self.tracked |= more
+        st = IdxState()
+        a = self.fn.args
+        bound_here = {x.arg for x in a.posonlyargs + a.args + a.kwonlyargs} | ({a.vararg.arg} if a.vararg else set()) | ({a.kwarg.arg} if a.kwarg else set())
+        bound_here |= {n.id for n in ast.walk(self.fn) if isinstance(n, ast.Name) and isinstance(n.ctx, ast.Store)}
+        for n in ast.walk(self.fn):
+            if isinstance(n, ast.Lambda):
+                bound_here |= {x.arg for x in n.args.posonlyargs + n.args.args + n.args.kwonlyargs}
+        for v in sorted(self.tracked - bound_here):
+            # a name of an enclosing scope: a module-level int constant is its value, anything else is not decided here
+            val = None
+            for stm in self.mod.tree.body:
+                if isinstance(stm, ast.Assign) and len(stm.targets) == 1 and isinstance(stm.targets[0], ast.Name) and stm.targets[0].id == v:
+                    val = stm.value if val is None else False
+            if isinstance(val, ast.Constant) and isinstance(val.value, int) and not isinstance(val.value, bool):
+                st.lows[v] = [LinB(val.value)]
+                st.highs[v] = [LinB(val.value)]
+            else:
+                st.unknown[v] = 'a name of an enclosing scope'
+        try:
+            self.block(self.fn.body, [st])
+        except AnalysisError as ex:
+            return IdxVerdict('und', str(ex))
+        if not self.verdicts:
+            return IdxVerdict('und', 'the emission is not reached by the statement walk')
+        bad = [v for v in self.verdicts if v.status == 'bad']
+        und = [v for v in self.verdicts if v.status == 'und']
+        if bad:
+            return bad[0]
+        if und:
+            return und[0]
+        return self.verdicts[0]
+
+
+class IdxSite:
+    def __init__(self, key: str, file: str, line: int, status: str, detail: str, node: IndexedNode, call_txt: str):
+        self.key = key
+        self.file = file
+        self.line = line
+        self.status = status
+        self.detail = detail
+        self.node = node
+        self.call_txt = call_txt
+
+
+HAIL_PY = 'hail/python/hail'
+INDEX_QUICK_DIRS = ('hail/python/hail/ir', 'hail/python/hail/expr', 'hail/python/hail/table.py', 'hail/python/hail/matrixtable.py')
+
+
+def _calls_of(mod: pf.Module, names: Sequence[str]) -> List[ast.Call]:
+    out = []
+    for n in ast.walk(mod.tree):
+        if isinstance(n, ast.Call):
+            d = pf.dotted(n.func)
+            if d and d.split('.')[-1] in names:
+                out.append(n)
+    return out
+
+
+def _bind_index_arg(call: ast.Call, pos: int, param: str) -> Optional[ast.AST]:
+    for kw in call.keywords:
+        if kw.arg == param:
+            return kw.value
+        if kw.arg is None:
+            return None
+    if any(isinstance(a, ast.Starred) for a in call.args[:pos + 1]):
+        return None
+    if pos < len(call.args):
+        return call.args[pos]
+    return None
+
+
+def _prove_index(mod: pf.Module, fn: Optional[pf.FuncDef], call: ast.Call, expr: ast.AST, depth: int = 0) -> IdxVerdict:
+    v = IdxProof(mod, fn, call, expr, depth).run()
+    if v.status != 'ok' and fn is not None and depth < 2:
+        # an index that is a parameter of a private helper / nested function: decide it at the call sites of the helper
+        r = IdxProof(mod, fn, call, expr).lin(expr, IdxState(), {})
+        a = fn.args
+        params = [x.arg for x in a.posonlyargs + a.args]
+        private = (fn.name.startswith('_') and not fn.name.startswith('__')) or isinstance(mod.parents().get(fn), (ast.FunctionDef, ast.AsyncFunctionDef))
+        if r is not None and len(r[1]) == 1 and list(r[1])[0] in params and private and v.status in ('bad', 'und') and r[0].nonneg() and list(r[1].values())[0] == 1:
+            p = list(r[1])[0]
+            is_method = isinstance(mod.parents().get(fn), ast.ClassDef) and 'staticmethod' not in pf.decorator_names(fn)
+            k = params.index(p) - (1 if is_method else 0)
+            sites = [c for c in ast.walk(mod.tree) if isinstance(c, ast.Call) and (pf.dotted(c.func) or '').split('.')[-1] == fn.name and c is not call
+                     and mod.enclosing_func(c) is not fn]
+            if not sites:
+                return v
+            # the helper must not constrain or re-assign the parameter itself (otherwise its own verdict stands)
+            worst: Optional[IdxVerdict] = None
+            for c in sites:
+                arg = _bind_index_arg(c, k, p)
+                if arg is None:
+                    return IdxVerdict('und', f'call `{pf.nsrc(c)[:60]}` of the helper {fn.name} does not pass `{p}` in a recognised way')
+                w = _prove_index(mod, mod.enclosing_func(c), c, arg, depth + 1)
+                if w.status == 'bad':
+                    return IdxVerdict('bad', f'helper {fn.name} is called as `{pf.nsrc(c)[:70]}`: {w.detail}')
+                if w.status == 'und':
+                    worst = IdxVerdict('und', f'helper {fn.name} called as `{pf.nsrc(c)[:70]}`: {w.detail}')
+            if v.status == 'bad' and 'no guard on it' not in v.detail:
+                return v
+            return worst or IdxVerdict('ok', f'every call of the helper {fn.name} passes a non-negative `{p}`')
+    return v
+
+
+def index_domain_sites(table: ic.Table, thorough: bool = False) -> Tuple[List[IdxSite], List[IndexedNode], int]:
+    """Every construction of an index-typed IR node in the front end with the verdict on `index >= 0`."""
+    from .common import read_repo
+    nodes = indexed_nodes(table)
+    if not nodes:
+        raise AnalysisError('no IR node is typed by subscripting a tuple type with an int parameter (GetTupleElement rule vanished)')
+    names = [n.cls.name for n in nodes]
+    by_name = {n.cls.name: n for n in nodes}
+    rels = list(pf.walk_py([HAIL_PY] if thorough else list(INDEX_QUICK_DIRS)))
+    sites: Dict[str, IdxSite] = {}
+    n_files = 0
+    for rel in rels:
+        txt = read_repo(rel)
+        if not any(n in txt for n in names):
+            continue
+        mod = pf.load(rel)
+        n_files += 1
+        for call in _calls_of(mod, names):
+            node = by_name[(pf.dotted(call.func) or '').split('.')[-1]]
+            fn = mod.enclosing_func(call)
+            qual = mod.qualname(fn) if fn is not None else '<module>'
+            expr = _bind_index_arg(call, node.pos, node.param)
+            key = f'{rel}::{qual}::{pf.nsrc(call)[:80]}.{node.param}'
+            if expr is None:
+                v = IdxVerdict('und', f'the `{node.param}` argument is not passed in a recognised way')
+            else:
+                # the node's own attribute inside its own class (copy / rebuild): invariant of every node already built
+                encl = None
+                cur: Optional[ast.AST] = call
+                while cur is not None:
+                    cur = mod.parents().get(cur)
+                    if isinstance(cur, ast.ClassDef):
+                        encl = cur.name
+                        break
+                attr = ic._self_attr(expr)
+                if attr is not None and encl is not None and encl in table.classes and node.cls in table.get(encl).mro \
+                        and _ctor_attr_map(node.cls).get(attr, attr) == node.param:
+                    v = IdxVerdict('ok', f'the `{attr}` of an already constructed {node.cls.name} (rebuild)')
+                else:
+                    v = _prove_index(mod, fn, call, expr)
+            prev = sites.get(key)
+            rank = {'ok': 0, 'und': 1, 'bad': 2}
+            if prev is None or rank[v.status] > rank[prev.status]:
+                sites[key] = IdxSite(key, mod.path, call.lineno, v.status, v.detail, node, pf.nsrc(call)[:90])
+    return list(sites.values()), nodes, n_files
+
+
+# ======================================================================================================================
+# Part 4: CHILDREN OF ONE NODE AGREE  (C36 R12)
+# ======================================================================================================================
+#
+# TableUnion / TableMultiWayZipJoin / MatrixUnionRows / MatrixUnionCols are typed - by python AND by the engine - from their FIRST
+# child only; the engine's TypeCheck additionally demands that the children agree on some components (rowType, key, globalType,
+# entryType, ...), which python's _compute_type never looks at.  The front end therefore has to ESTABLISH the agreement before it
+# emits such a node: with an equality guard on a python type expression that determines the component, or by rebuilding every child
+# through one unified projection.  Otherwise it reports the type of child 0 for an IR whose children disagree (the engine has no
+# type for it).  The obligations are READ from TypeCheck.scala (the `==` comparisons between the same component of different
+# children in the node's case arm); every emitting function of the front end is then abstractly executed, path by path, over
+#     entities    single tables / collections of tables / a generic element of a collection
+#     facts       agree(component, members): all members have the same <component> (row.dtype, key.dtype, key names, ...)
+#     flags       truth values of boolean parameters (unify, ...) and of recognised comparisons
+# Guards (`if a.C != b.C: raise`, `any(head.C != t.C for t in ts)`, `len(set(t.C for t in ts)) == 1`) add facts; re-assignments
+# through known table methods carry the facts of the components the method preserves; `for i, t in enumerate(L): L[i] = f(t)`
+# rebuilds a collection.  A test that mentions tables but no type is type-blind and establishes nothing (both branches are
+# explored); a test or call we do not understand makes the path UNDECIDED, never a violation.
+
+REL_COMPONENTS = ('globalType', 'rowType', 'key', 'colKey', 'colType', 'rowKey', 'entryType', 'rowKeyStruct', 'colKeyStruct', 'keyType', 'rowValueStruct',
+                  'colValueStruct', 'valueType')
+
+# engine component -> alternative sets of python facts that determine it
+IMPLIED_BY = {
+    'table': {
+        'rowType': [('row.dtype',), ('keyfirst', 'key.dtype', 'row_value.dtype')],
+        'key': [('key.names',)],
+        'keyType': [('key.dtype',)],
+        'globalType': [('globals.dtype',)],
+        'valueType': [('row_value.dtype',)],
+    },
+    'matrix': {
+        'rowType': [('row.dtype',)],
+        'rowKey': [('row_key.names',)],
+        'rowKeyStruct': [('row_key.names', 'row_key.types'), ('row.dtype', 'row_key.names')],
+        'colKey': [('col_key.names',)],
+        'colKeyStruct': [('col_key.names', 'col_key.types'), ('col.dtype', 'col_key.names')],
+        'colType': [('col.dtype',)],
+        'entryType': [('entry.dtype',)],
+        'globalType': [('globals.dtype',)],
+    },
+}
+PY_PARTS = {'table': ('key', 'row', 'row_value', 'globals'), 'matrix': ('row_key', 'col_key', 'row', 'col', 'entry', 'globals', 'row_value', 'col_value')}
+WITNESS = {
+    'rowType': 'e.g. two tables with the same fields where `x` is int32 in one and float64 in the other, or with the same fields in a different order',
+    'key': 'e.g. tables keyed by differently named fields', 'globalType': 'e.g. tables whose globals differ',
+    'entryType': 'e.g. an entry field that is int32 in one dataset and float64 in the other', 'colType': 'e.g. a column field of different type or name',
+    'rowKeyStruct': 'e.g. row keys of the same types but different names (`locus` vs `locus_2`)', 'colKeyStruct': 'e.g. column keys of different type',
+    'rowKey': 'e.g. differently named row keys', 'colKey': 'e.g. differently named column keys', 'keyType': 'e.g. keys of different type',
+}
+WHAT_DIFFERS = {
+    'rowType': 'row types (field names, order or types)', 'key': 'key field names', 'globalType': 'global types', 'entryType': 'entry types',
+    'colType': 'column types', 'rowKeyStruct': 'row key structs (names and types)', 'colKeyStruct': 'column key structs', 'rowKey': 'row key names',
+    'colKey': 'column key names', 'keyType': 'key types',
+}
+# table methods that return a new table: components of the receiver that the result is certain to share
+PRESERVES = {
+    ('table', 'select'): ('key.dtype', 'globals.dtype'),
+    ('table', 'annotate'): ('key.dtype', 'globals.dtype'),      # key fields cannot be overwritten; the other fields keep the table's own order
+    ('table', 'transmute'): ('key.dtype', 'globals.dtype'),
+    ('matrix', 'select_rows'): ('entry.dtype', 'col.dtype', 'col_key.dtype', 'row_key.dtype', 'globals.dtype', 'col_value.dtype'),
+    ('matrix', 'select_entries'): ('row.dtype', 'col.dtype', 'col_key.dtype', 'row_key.dtype', 'globals.dtype', 'col_value.dtype', 'row_value.dtype'),
+    ('matrix', 'select_cols'): ('row.dtype', 'entry.dtype', 'col_key.dtype', 'row_key.dtype', 'globals.dtype', 'row_value.dtype'),
+    ('matrix', 'select_globals'): ('row.dtype', 'entry.dtype', 'col.dtype', 'col_key.dtype', 'row_key.dtype', 'row_value.dtype', 'col_value.dtype'),
+    ('table', 'select_globals'): ('row.dtype', 'key.dtype', 'row_value.dtype'),
+}
+RENAME_TOUCHES = {'row_value': ('row', 'row_value'), 'col_value': ('col', 'col_value'), 'entry': ('entry',), 'globals': ('globals',),
+                  'row': ('row', 'row_value', 'row_key'), 'col': ('col', 'col_value', 'col_key'), 'row_key': ('row', 'row_key'), 'col_key': ('col', 'col_key'),
+                  'key': ('row', 'key')}
+TYPEY_ATTRS = ('dtype', 'typ', '_type', 'types', 'type', 'element_type', 'key_type', 'value_type', 'point_type', 'fields', '_fields')
+BLIND_CALLS = ('list', 'set', 'tuple', 'len', 'sorted', 'frozenset', 'any', 'all', 'bool', 'enumerate', 'zip', 'range', 'isinstance', 'iter', 'next', 'reversed')
+
+
+class AgreeNode:
+    def __init__(self, cls: ic.Cls, kind: str, comps: List[str], where: str, line: int):
+        self.cls = cls
+        self.kind = kind
+        self.comps = comps
+        self.where = where
+        self.line = line
+
+
+def _sel_chain(t: Any) -> Optional[Tuple[str, Tuple[str, ...]]]:
+    """('sel', ('sel', root, 'typ'), 'rowType') -> (repr of root, ('typ', 'rowType'))."""
+    path: List[str] = []
+    while isinstance(t, tuple) and t and t[0] == 'sel':
+        path.append(t[2])
+        t = t[1]
+    if not path:
+        return None
+    return repr(t), tuple(reversed(path))
+
+
+def agreement_nodes(table: ic.Table) -> Tuple[List[AgreeNode], List[str]]:
+    """Relational IR classes whose TypeCheck.scala arm compares the same type component of different children."""
+    out: List[AgreeNode] = []
+    notes: List[str] = []
+    S = sl.load(TYPECHECK_SCALA)
+    for cls in table.ir_classes():
+        kind = 'table' if cls.is_a('TableIR') else 'matrix' if cls.is_a('MatrixIR') else None
+        if kind is None or cls.name in ic.ROOTS:
+            continue
+        if (cls.name + '(') not in S.code:
+            continue
+        _, arm = scala_match_arm(TYPECHECK_SCALA, cls.name)
+        if arm is None:
+            continue
+        where = f'{TYPECHECK_SCALA}::case {arm[0]}'
+        try:
+            items = _arm_items(S, arm, where)
+        except AnalysisError as ex:
+            # an arm the subset parser cannot read: if it mentions a cross-child comparison we must not stay silent
+            txt = S.nocomment[arm[1]:arm[2]]
+            if '==' in txt and ('.tail' in txt or 'forall' in txt):
+                raise AnalysisError(f'{where}: cannot read the arm ({ex})')
+            continue
+        comps: List[str] = []
+        for t in _sc_walk(items):
+            if t[0] == 'bin' and t[1] == '==' and len(t) == 4:
+                a, b = _sel_chain(t[2]), _sel_chain(t[3])
+                if a and b and a[1][-1] == b[1][-1] and a[1][-1] in REL_COMPONENTS and a[0] != b[0] and a[1] == b[1]:
+                    if a[1][-1] not in comps:
+                        comps.append(a[1][-1])
+        if not comps:
+            continue
+        r = cls.resolve('_compute_type')
+        if r is not None and any(isinstance(n, ast.Assert) for n in ast.walk(r[1])):
+            notes.append(f'{cls.name}: python _compute_type asserts something itself - not armed')
+            continue
+        for c in comps:
+            if c not in IMPLIED_BY[kind]:
+                raise AnalysisError(f'{where}: the engine demands agreement on `{c}`, which this analysis has no python counterpart for')
+        out.append(AgreeNode(cls, kind, comps, where, S.line_of(arm[1])))
+    return out, notes
+
+
+# ---- abstract values: ('tab', tid) ('coll', (member, ...)) ('comp', tid, comp) ('names', tid, part) ('renames', tid, part) ('idx', cid) ------
+
+def _close(comp: str) -> List[str]:
+    out = [comp]
+    if comp.endswith('.dtype'):
+        p = comp[:-6]
+        out += [p + '.names', p + '.types', p + '.nameset']
+    elif comp.endswith('.names'):
+        out.append(comp[:-6] + '.nameset')
+    return out
+
+
+class AgState:
+    def __init__(self) -> None:
+        self.env: Dict[str, tuple] = {}
+        self.facts: Set[Tuple[str, FrozenSet[tuple]]] = set()
+        self.flags: Dict[str, bool] = {}
+        self.taint: Optional[str] = None
+        self.opaque: Set[str] = set()       # table entities with a history we do not understand
+        self.label: Tuple[str, ...] = ()
+        self.notes: Tuple[str, ...] = ()
+        self.stored: Optional[tuple] = None  # inside a rebuild loop body: what was stored into the collection on this path
+        self.dead = False
+
+    def copy(self) -> 'AgState':
+        s = AgState()
+        s.env = dict(self.env)
+        s.facts = set(self.facts)
+        s.flags = dict(self.flags)
+        s.taint = self.taint
+        s.opaque = set(self.opaque)
+        s.label = self.label
+        s.notes = self.notes
+        s.stored = self.stored
+        return s
+
+    def key(self) -> tuple:
+        return (tuple(sorted(self.env.items(), key=repr)), tuple(sorted(self.facts, key=repr)), tuple(sorted(self.flags.items())), self.taint,
+                tuple(sorted(self.opaque)), self.stored)
+
+    def add_fact(self, comp: str, members: Iterable[tuple]) -> None:
+        ms = set(members)
+        if len(ms) < 1:
+            return
+        for c in _close(comp):
+            cur = set(ms)
+            rest = set()
+            for (fc, fm) in self.facts:
+                if fc == c and (fm & cur):
+                    cur |= fm
+                else:
+                    rest.add((fc, fm))
+            # head + tail of one collection = the whole collection
+            for m in list(cur):
+                if m[0] == 'tail' and ('one', 'head:' + m[1]) in cur:
+                    cur.add(('all', m[1]))
+            rest.add((c, frozenset(cur)))
+            self.facts = rest
+
+    def covered(self, comp: str, members: Sequence[tuple]) -> bool:
+        need = {m for m in members if not (m[0] in ('all', 'tail') and self.flags.get('empty:' + str(m[1])))}
+        if len(need) <= 1 and all(m[0] == 'one' for m in need):
+            return True
+        for (fc, fm) in self.facts:
+            if fc != comp:
+                continue
+            ok = True
+            for m in need:
+                if m in fm:
+                    continue
+                cid = m[1][5:] if m[0] == 'one' and isinstance(m[1], str) and m[1].startswith('head:') else m[1] if m[0] in ('tail', 'all') else None
+                if cid is not None and ('all', cid) in fm:
+                    continue
+                ok = False
+                break
+            if ok:
+                return True
+        return False
+
+
+class AgSiteResult:
+    def __init__(self, key: str, file: str, line: int, status: str, msg: str):
+        self.key = key
+        self.file = file
+        self.line = line
+        self.status = status  # ok | bad | und
+        self.msg = msg
+
+
+class AgreeFlow:
+    MAX_STATES = 48
+
+    def __init__(self, mod: pf.Module, fn: pf.FuncDef, qual: str, nodes: Dict[str, AgreeNode], kind: str):
+        self.mod = mod
+        self.fn = fn
+        self.qual = qual
+        self.nodes = nodes
+        self.kind = kind            # 'table' | 'matrix': what `self` / the parameters are
+        self.results: List[AgSiteResult] = []
+        self.raw: List[Tuple[ast.Call, AgSiteResult, Dict[str, bool]]] = []
+        self.n_tab = 0
+        self.assigned = {n.id for n in ast.walk(fn) if isinstance(n, ast.Name) and isinstance(n.ctx, ast.Store)}
+        self.family_cache: Dict[Tuple[str, str], Tuple[str, str]] = {}
+
+    # ---- entry state ---------------------------------------------------------------------------------------------------
+    def entry(self) -> AgState:
+        st = AgState()
+        a = self.fn.args
+        decl: Dict[str, str] = {}
+        for dec in self.fn.decorator_list:
+            if isinstance(dec, ast.Call) and pf.dotted(dec.func) in ('typecheck_method', 'typecheck'):
+                for kw in dec.keywords:
+                    if kw.arg is None:
+                        continue
+                    v = kw.value
+                    if isinstance(v, ast.Name) and v.id in ('table_type', 'matrix_table_type'):
+                        decl[kw.arg] = 'one'
+                    elif isinstance(v, ast.Call) and pf.dotted(v.func) in ('sequenceof', 'tupleof') and len(v.args) == 1 and isinstance(v.args[0], ast.Name) \
+                            and v.args[0].id in ('table_type', 'matrix_table_type'):
+                        decl[kw.arg] = 'many'
+        is_method = isinstance(self.mod.parents().get(self.fn), ast.ClassDef) and not ({'staticmethod', 'classmethod'} & set(pf.decorator_names(self.fn)))
+        params = [x.arg for x in a.posonlyargs + a.args]
+        if is_method and params:
+            st.env[params[0]] = ('tab', params[0])
+            params = params[1:]
+        for p in params + [x.arg for x in a.kwonlyargs]:
+            if decl.get(p) == 'one':
+                st.env[p] = ('tab', p)
+            elif decl.get(p) == 'many':
+                st.env[p] = ('coll', (('all', p),))
+        if a.vararg is not None and decl.get(a.vararg.arg) == 'one':
+            st.env[a.vararg.arg] = ('coll', (('all', a.vararg.arg),))
+        return st
+
+    # ---- expressions ---------------------------------------------------------------------------------------------------
+    def ev(self, e: ast.AST, st: AgState) -> Optional[tuple]:
+        if isinstance(e, ast.Name):
+            return st.env.get(e.id)
+        if isinstance(e, ast.Starred):
+            return self.ev(e.value, st)
+        c = self.comp_of(e, st)
+        if c is not None:
+            return c
+        if isinstance(e, (ast.List, ast.Tuple)):
+            ms: List[tuple] = []
+            for x in e.elts:
+                v = self.ev(x, st)
+                if v is None:
+                    return None
+                if v[0] == 'tab' and not isinstance(x, ast.Starred):
+                    ms.append(('one', v[1]))
+                elif v[0] == 'coll' and isinstance(x, ast.Starred):
+                    ms += list(v[1])
+                else:
+                    return None
+            return ('coll', tuple(ms))
+        if isinstance(e, ast.Call) and pf.dotted(e.func) in ('list', 'tuple') and len(e.args) == 1 and not e.keywords:
+            v = self.ev(e.args[0], st)
+            return v if v is not None and v[0] == 'coll' else None
+        if isinstance(e, (ast.ListComp, ast.GeneratorExp)) and len(e.generators) == 1 and not e.generators[0].ifs and isinstance(e.generators[0].target, ast.Name):
+            # [t._tir for t in L] / [t for t in L]: the same members (the IR of a table stands for the table)
+            g = e.generators[0]
+            elt = e.elt.value if isinstance(e.elt, ast.Attribute) and e.elt.attr in ('_tir', '_mir') else e.elt
+            if isinstance(elt, ast.Name) and elt.id == g.target.id:
+                m = self.ev(g.iter, st)
+                return m if m is not None and m[0] == 'coll' else None
+            return None
+        if isinstance(e, ast.Attribute) and e.attr in ('_tir', '_mir'):
+            t = self.ev(e.value, st)
+            return t if t is not None and t[0] == 'tab' else None
+        if isinstance(e, ast.BinOp) and isinstance(e.op, ast.Add):
+            a, b = self.ev(e.left, st), self.ev(e.right, st)
+            if a and b and a[0] == 'coll' and b[0] == 'coll':
+                return ('coll', a[1] + b[1])
+            return None
+        if isinstance(e, ast.BinOp) and isinstance(e.op, ast.Sub):
+            return self.names_of(e.left, st)
+        if isinstance(e, ast.Subscript):
+            v = self.ev(e.value, st)
+            if v is not None and v[0] == 'coll' and v[1]:
+                s = e.slice
+                if isinstance(s, ast.Constant) and s.value == 0:
+                    m = v[1][0]
+                    return ('tab', m[1]) if m[0] == 'one' else ('tab', 'head:' + m[1]) if m[0] == 'all' else None
+                if isinstance(s, ast.Slice) and s.upper is None and s.step is None and isinstance(s.lower, ast.Constant) and s.lower.value == 1:
+                    m = v[1][0]
+                    if m[0] == 'one':
+                        return ('coll', v[1][1:])
+                    if m[0] == 'all':
+                        return ('coll', (('tail', m[1]),) + v[1][1:])
+                if isinstance(s, ast.Slice) and s.upper is None and s.step is None and isinstance(s.lower, ast.Constant) and isinstance(s.lower.value, int) \
+                        and s.lower.value >= 2 and len(v[1]) == 1 and v[1][0][0] == 'all':
+                    # a proper part of the tail: facts about it never add up to the whole collection
+                    return ('coll', ((f'from{s.lower.value}', v[1][0][1]),))
+            return None
+        if isinstance(e, ast.Call) and pf.dotted(e.func) in ('set', 'list', 'tuple', 'frozenset', 'sorted') and len(e.args) == 1 and not e.keywords:
+            v = self.ev(e.args[0], st)
+            if v is not None and v[0] in ('names', 'renames'):
+                return v
+            return None
+        if isinstance(e, ast.Call) and pf.dotted(e.func) == 'dict' and len(e.args) == 1 and not e.keywords:
+            v = self.ev(e.args[0], st)
+            return v if v is not None and v[0] == 'renames' else None
+        return None
+
+    def names_of(self, e: ast.AST, st: AgState) -> Optional[tuple]:
+        """A set / list of field names known to be a subset of the names of one part of one table: ('names', tid, part)."""
+        v = self.ev(e, st)
+        if v is None:
+            return None
+        if v[0] == 'names':
+            return v
+        if v[0] == 'comp' and (v[2].endswith('.nameset') or v[2].endswith('.names')):
+            return ('names', v[1], v[2].rsplit('.', 1)[0])
+        return None
+
+    def comp_of(self, e: ast.AST, st: AgState) -> Optional[tuple]:
+        """`t.row.dtype` -> ('comp', tid, 'row.dtype'); names / types views likewise."""
+        parts = PY_PARTS[self.kind]
+
+        def part(x: ast.AST) -> Optional[Tuple[str, str]]:
+            if isinstance(x, ast.Attribute) and x.attr in parts:
+                t = self.ev(x.value, st) if not isinstance(x.value, ast.Attribute) or x.value.attr not in parts else None
+                if t is not None and t[0] == 'tab':
+                    return t[1], x.attr
+            return None
+
+        def dtype_of(x: ast.AST) -> Optional[Tuple[str, str]]:
+            if isinstance(x, ast.Attribute) and x.attr == 'dtype':
+                return part(x.value)
+            return None
+
+        if isinstance(e, ast.Name):
+            v = st.env.get(e.id)
+            return v if v is not None and v[0] == 'comp' else None
+        d = dtype_of(e)
+        if d:
+            return ('comp', d[0], d[1] + '.dtype')
+        # names views
+        if isinstance(e, ast.Call) and isinstance(e.func, ast.Attribute) and e.func.attr == 'keys' and not e.args:
+            p = part(e.func.value) or dtype_of(e.func.value)
+            if p:
+                return ('comp', p[0], p[1] + '.names')
+        if isinstance(e, ast.Call) and isinstance(e.func, ast.Attribute) and e.func.attr == 'values' and not e.args:
+            p = dtype_of(e.func.value)
+            if p:
+                return ('comp', p[0], p[1] + '.types')
+        if isinstance(e, ast.Attribute) and e.attr == 'types':
+            p = dtype_of(e.value)
+            if p:
+                return ('comp', p[0], p[1] + '.types')
+        if isinstance(e, ast.Call) and pf.dotted(e.func) in ('list', 'tuple') and len(e.args) == 1 and not e.keywords:
+            a = e.args[0]
+            p = part(a) or dtype_of(a)
+            if p:
+                return ('comp', p[0], p[1] + '.names')
+            inner = self.comp_of(a, st)
+            if inner is not None and (inner[2].endswith('.names') or inner[2].endswith('.types')):
+                return inner
+        if isinstance(e, ast.Call) and pf.dotted(e.func) in ('set', 'frozenset') and len(e.args) == 1 and not e.keywords:
+            a = e.args[0]
+            p = part(a) or dtype_of(a)
+            if p:
+                return ('comp', p[0], p[1] + '.nameset')
+            inner = self.comp_of(a, st)
+            if inner is not None and inner[2].endswith('.names'):
+                return ('comp', inner[1], inner[2][:-6] + '.nameset')
+        return None
+
+    def entity_names(self, st: AgState) -> Set[str]:
+        return {n for n, v in st.env.items() if v[0] in ('tab', 'coll', 'comp', 'names', 'renames')}
+
+    def mentions_entities(self, e: ast.AST, st: AgState) -> bool:
+        return bool(pf.names_in(e) & self.entity_names(st))
+
+    def type_blind(self, e: ast.AST) -> bool:
+        for n in ast.walk(e):
+            if isinstance(n, ast.Attribute) and (n.attr in TYPEY_ATTRS or 'type' in n.attr.lower()):
+                return False
+            if isinstance(n, ast.Name) and 'type' in n.id.lower():
+                return False
+            if isinstance(n, ast.Call):
+                d = pf.dotted(n.func) or ''
+                if d in BLIND_CALLS:
+                    continue
+                if isinstance(n.func, ast.Attribute) and n.func.attr in ('keys', 'index', 'count', 'startswith', 'endswith'):
+                    continue
+                return False
+            if isinstance(n, (ast.Lambda, ast.Await, ast.Yield, ast.YieldFrom, ast.NamedExpr, ast.JoinedStr)):
+                return False
+        return True
+
+    # ---- tests ---------------------------------------------------------------------------------------------------------
+    def gen_fact(self, elt: ast.AST, gens: Sequence[ast.comprehension], st: AgState, want_equal: bool) -> Optional[Tuple[str, List[tuple]]]:
+        """`head.C != t.C for t in M` (want_equal False: the generator of any(...)) -> (C, members)."""
+        if len(gens) != 1 or gens[0].ifs or not isinstance(gens[0].target, ast.Name):
+            return None
+        m = self.ev(gens[0].iter, st)
+        if m is None or m[0] != 'coll':
+            return None
+        s2 = st.copy()
+        cid = self.elt_id(m)
+        s2.env[gens[0].target.id] = ('tab', cid)
+        if not (isinstance(elt, ast.Compare) and len(elt.ops) == 1 and isinstance(elt.ops[0], (ast.Eq, ast.NotEq))):
+            return None
+        if isinstance(elt.ops[0], ast.Eq) != want_equal:
+            return None
+        a, b = self.comp_of(elt.left, s2), self.comp_of(elt.comparators[0], s2)
+        if a is None or b is None or a[2] != b[2]:
+            return None
+        tids = {a[1], b[1]}
+        if cid not in tids:
+            return None
+        members = list(m[1])
+        other = (tids - {cid})
+        if other:
+            members.append(('one', next(iter(other))))
+        return a[2], members
+
+    def elt_id(self, coll: tuple) -> str:
+        return 'elt:' + repr(coll[1])
+
+    def assume(self, st: AgState, atom: ast.AST, pol: bool) -> None:
+        if isinstance(atom, ast.Name):
+            if atom.id in self.entity_names(st):
+                return
+            if atom.id in self.assigned:
+                defs = [x.value for x in ast.walk(self.fn) if isinstance(x, ast.Assign) and len(x.targets) == 1 and isinstance(x.targets[0], ast.Name)
+                        and x.targets[0].id == atom.id]
+                others = [x for x in ast.walk(self.fn) if isinstance(x, ast.Name) and x.id == atom.id and isinstance(x.ctx, ast.Store)]
+                if len(defs) == 1 and len(others) == 1 and self.mentions_entities(defs[0], st):
+                    alts = self.dnf(defs[0], pol)
+                    if len(alts) == 1:
+                        for a2, p2 in alts[0]:
+                            if not (isinstance(a2, ast.Name) and a2.id == atom.id):
+                                self.assume(st, a2, p2)
+                    elif not self.type_blind(defs[0]):
+                        st.taint = st.taint or f'test on `{atom.id}` = `{pf.nsrc(defs[0])[:60]}`'
+                elif any(self.mentions_entities(d, st) and not self.type_blind(d) for d in defs):
+                    st.taint = st.taint or f'test on the local `{atom.id}`'
+                return
+            if st.flags.get(atom.id, pol) != pol:
+                st.dead = True
+            st.flags[atom.id] = pol
+            return
+        if isinstance(atom, ast.Constant):
+            if bool(atom.value) != pol:
+                st.dead = True
+            return
+        if not self.mentions_entities(atom, st):
+            return
+        fkey = None
+        # a.C == b.C
+        if isinstance(atom, ast.Compare) and len(atom.ops) == 1 and isinstance(atom.ops[0], (ast.Eq, ast.NotEq)):
+            a, b = self.comp_of(atom.left, st), self.comp_of(atom.comparators[0], st)
+            if a is not None and b is not None:
+                if a[2] == b[2] and a[1] != b[1]:
+                    equal = isinstance(atom.ops[0], ast.Eq) == pol
+                    fkey = 'eq:' + a[2] + ':' + '|'.join(sorted([str(a[1]), str(b[1])]))
+                    if st.flags.get(fkey, equal) != equal:
+                        st.dead = True
+                    st.flags[fkey] = equal
+                    if equal:
+                        st.add_fact(a[2], [self.member_of(a[1]), self.member_of(b[1])])
+                    return
+                st.taint = st.taint or f'comparison of different components `{pf.nsrc(atom)}`'
+                return
+            # len(set(C for t in M)) == 1
+            left, right = atom.left, atom.comparators[0]
+            if isinstance(right, ast.Constant) and right.value == 1 and isinstance(left, ast.Call) and pf.dotted(left.func) == 'len' and len(left.args) == 1:
+                inner = left.args[0]
+                gen = None
+                if isinstance(inner, ast.Call) and pf.dotted(inner.func) in ('set', 'frozenset') and len(inner.args) == 1 and isinstance(inner.args[0], (ast.GeneratorExp, ast.ListComp, ast.SetComp)):
+                    gen = inner.args[0]
+                elif isinstance(inner, ast.SetComp):
+                    gen = inner
+                if gen is not None and len(gen.generators) == 1 and not gen.generators[0].ifs and isinstance(gen.generators[0].target, ast.Name):
+                    m = self.ev(gen.generators[0].iter, st)
+                    if m is not None and m[0] == 'coll':
+                        s2 = st.copy()
+                        cid = self.elt_id(m)
+                        s2.env[gen.generators[0].target.id] = ('tab', cid)
+                        c = self.comp_of(gen.elt, s2)
+                        if c is not None and c[1] == cid:
+                            same = isinstance(atom.ops[0], ast.Eq) == pol
+                            fkey = 'allsame:' + c[2] + ':' + repr(m[1])
+                            if st.flags.get(fkey, same) != same:
+                                st.dead = True
+                            st.flags[fkey] = same
+                            if same:
+                                st.add_fact(c[2], m[1])
+                            return
+                        if self.type_blind(gen.elt):
+                            return
+        if isinstance(atom, ast.Call) and pf.dotted(atom.func) in ('any', 'all') and len(atom.args) == 1 and isinstance(atom.args[0], (ast.GeneratorExp, ast.ListComp)):
+            g = atom.args[0]
+            is_any = pf.dotted(atom.func) == 'any'
+            if is_any and not pol:
+                f = self.gen_fact(g.elt, g.generators, st, want_equal=False)
+                if f:
+                    st.add_fact(f[0], f[1])
+                    return
+            if not is_any and pol:
+                f = self.gen_fact(g.elt, g.generators, st, want_equal=True)
+                if f:
+                    st.add_fact(f[0], f[1])
+                    return
+            if self.gen_fact(g.elt, g.generators, st, True) or self.gen_fact(g.elt, g.generators, st, False):
+                return   # recognised, but this truth value establishes nothing for every element
+        if self.type_blind(atom):
+            return
+        st.taint = st.taint or f'unrecognised test `{pf.nsrc(atom)[:80]}`'
+
+    def member_of(self, tid: str) -> tuple:
+        return ('one', tid)
+
+    def dnf(self, test: ast.AST, pol: bool) -> List[List[Tuple[ast.AST, bool]]]:
+        return IdxProof.dnf(self, test, pol)  # type: ignore[arg-type]
+
+    def branch(self, st: AgState, test: ast.AST, pol: bool) -> List[AgState]:
+        out = []
+        for conj in self.dnf(test, pol):
+            s = st.copy()
+            for atom, p in conj:
+                self.assume(s, atom, p)
+                if s.dead:
+                    break
+            if not s.dead:
+                out.append(s)
+        return out
+
+    # ---- statements ----------------------------------------------------------------------------------------------------
+    def emissions_in(self, node: ast.AST) -> List[ast.Call]:
+        out = []
+        for n in pf.walk_shallow(node):
+            if isinstance(n, ast.Call):
+                d = pf.dotted(n.func)
+                if d and d.split('.')[-1] in self.nodes:
+                    out.append(n)
+        return out
+
+    def merge(self, states: List[AgState]) -> List[AgState]:
+        seen: Dict[tuple, AgState] = {}
+        for s in states:
+            k = s.key()
+            if k not in seen:
+                seen[k] = s
+        out = list(seen.values())
+        if len(out) > self.MAX_STATES:
+            raise AnalysisError(f'{self.mod.rel}::{self.qual}: too many paths')
+        return out
+
+    def block(self, stmts: Sequence[ast.stmt], states: List[AgState]) -> List[AgState]:
+        for s in stmts:
+            if not states:
+                return []
+            nxt: List[AgState] = []
+            for st in states:
+                nxt += self.stmt(s, st)
+            states = self.merge(nxt)
+        return states
+
+    def escapes(self, node: ast.AST, st: AgState) -> None:
+        ents = {n for n, v in st.env.items() if v[0] in ('tab', 'coll')}
+        for c in pf.walk_shallow(node):
+            if not isinstance(c, ast.Call):
+                continue
+            d = pf.dotted(c.func) or ''
+            last = d.split('.')[-1]
+            if last in BLIND_CALLS or last in self.nodes or last in ('Table', 'MatrixTable', 'extend', 'append', 'format', 'info', 'warning', 'rename') \
+                    or (isinstance(c.func, ast.Attribute) and (self.kind, c.func.attr) in PRESERVES):
+                continue
+            for a in list(c.args) + [k.value for k in c.keywords]:
+                if isinstance(a, ast.Starred):
+                    a = a.value
+                if isinstance(a, ast.Name) and a.id in ents:
+                    st.taint = st.taint or f'`{a.id}` is passed to `{pf.nsrc(c.func)}(...)`, which may check or change it'
+
+    def fresh(self, base: str) -> str:
+        self.n_tab += 1
+        return f'{base.split("#")[0]}#{self.n_tab}'
+
+    def transform(self, st: AgState, recv: tuple, call: ast.Call) -> tuple:
+        """Result of `recv.method(...)` (a new table): carry over the facts of the components the method preserves."""
+        meth = call.func.attr  # type: ignore[union-attr]
+        old = recv[1]
+        new = self.fresh(str(old))
+        keep: Optional[Tuple[str, ...]] = PRESERVES.get((self.kind, meth))
+        if meth == 'rename' and len(call.args) == 1 and not call.keywords:
+            r = self.ev(call.args[0], st)
+            if r is not None and r[0] == 'renames' and r[1] == old and r[2] in RENAME_TOUCHES:
+                touched = RENAME_TOUCHES[r[2]]
+                keep = tuple(p + '.dtype' for p in PY_PARTS[self.kind] if p not in touched)
+        if keep is None:
+            st.opaque.add(new)
+            return ('tab', new)
+        if old in st.opaque:
+            st.opaque.add(new)
+        keepc = set()
+        for k in keep:
+            keepc |= set(_close(k))
+        for (c, ms) in list(st.facts):
+            if c in keepc and ('one', old) in ms:
+                st.add_fact(c, [('one', old), ('one', new)])
+        return ('tab', new)
+
+    def assign_name(self, st: AgState, name: str, value: ast.AST) -> None:
+        v = self.ev(value, st)
+        if v is None and isinstance(value, ast.Call) and isinstance(value.func, ast.Attribute):
+            r = self.ev(value.func.value, st)
+            if r is not None and r[0] == 'tab':
+                v = self.transform(st, r, value)
+        if v is None:
+            if name in st.env and st.env[name][0] in ('tab', 'coll') and not self.type_blind(value):
+                st.taint = st.taint or f'`{name}` re-assigned from `{pf.nsrc(value)[:60]}`'
+            st.env.pop(name, None)
+        else:
+            st.env[name] = v
+
+    def stmt(self, s: ast.stmt, st: AgState) -> List[AgState]:
+        if isinstance(s, (ast.FunctionDef, ast.AsyncFunctionDef, ast.ClassDef, ast.Pass, ast.Import, ast.ImportFrom, ast.Global, ast.Nonlocal)):
+            return [st]
+        if isinstance(s, ast.Expr) and isinstance(s.value, ast.Constant):
+            return [st]
+        if isinstance(s, ast.If):
+            for em in self.emissions_in(s.test):
+                self.emit(em, st)
+            self.escapes(s.test, st)
+            t_in, f_in = self.branch(st, s.test, True), self.branch(st, s.test, False)
+            t = self.block(s.body, [x.copy() for x in t_in])
+            f = self.block(s.orelse, [x.copy() for x in f_in])
+            # label the decision only when it made a difference
+            if t and f and {x.key() for x in t} != {x.key() for x in f}:
+                txt = pf.nsrc(s.test)
+                txt = txt if len(txt) <= 70 else txt[:67] + '...'
+                for x in t:
+                    x.label = x.label + (txt,)
+                for x in f:
+                    x.label = x.label + ('not (' + txt + ')',)
+            return t + f
+        if isinstance(s, (ast.Return, ast.Raise)):
+            for em in self.emissions_in(s):
+                self.emit(em, st)
+            return []
+        if isinstance(s, (ast.Continue, ast.Break)):
+            st.taint = st.taint or 'continue/break'
+            return [st]
+        if isinstance(s, ast.Assert):
+            return self.branch(st, s.test, True)
+        if isinstance(s, (ast.For, ast.AsyncFor)):
+            return self.loop(s, st)
+        if isinstance(s, (ast.While, ast.Try, ast.With, ast.AsyncWith)) or (hasattr(ast, 'Match') and isinstance(s, ast.Match)):
+            touched = {n.id for n in ast.walk(s) if isinstance(n, ast.Name) and isinstance(n.ctx, ast.Store)} & self.entity_names(st)
+            if self.emissions_in(s) or touched:
+                st.taint = st.taint or f'{type(s).__name__} statement around tables / the emission'
+                for em in self.emissions_in(s):
+                    self.emit(em, st)
+            return [st]
+        # simple statements
+        for em in self.emissions_in(s):
+            self.emit(em, st)
+        self.escapes(s, st)
+        if isinstance(s, ast.Assign) and len(s.targets) == 1:
+            t = s.targets[0]
+            if isinstance(t, ast.Name):
+                self.assign_name(st, t.id, s.value)
+            elif isinstance(t, ast.Tuple) and all(isinstance(x, (ast.Name, ast.Starred)) for x in t.elts):
+                v = None
+                if isinstance(s.value, ast.Call) and (pf.dotted(s.value.func) or '').split('.')[-1] == 'deduplicate' and s.value.args:
+                    a = self.names_of(s.value.args[0], st)
+                    if a is not None:
+                        v = ('renames', a[1], a[2])
+                for i, x in enumerate(t.elts):
+                    nm = x.id if isinstance(x, ast.Name) else x.value.id if isinstance(x.value, ast.Name) else None  # type: ignore[union-attr]
+                    if nm is None:
+                        continue
+                    if nm in st.env and st.env[nm][0] in ('tab', 'coll'):
+                        st.taint = st.taint or f'`{nm}` re-assigned by tuple unpacking'
+                    st.env.pop(nm, None)
+                    if v is not None and i == 0 and isinstance(x, ast.Name):
+                        st.env[nm] = v
+            elif isinstance(t, ast.Subscript) and isinstance(t.value, ast.Name) and t.value.id in st.env and st.env[t.value.id][0] == 'coll':
+                idx = st.env.get(t.slice.id) if isinstance(t.slice, ast.Name) else None
+                if idx is not None and idx[0] == 'idx' and idx[1] == t.value.id:
+                    st.stored = self.rebuilt(st, s.value)
+                else:
+                    st.taint = st.taint or f'store into `{t.value.id}[...]` outside an enumerate loop over it'
+        elif isinstance(s, ast.AugAssign) and isinstance(s.target, ast.Name) and s.target.id in st.env:
+            if st.env[s.target.id][0] == 'coll' and isinstance(s.op, ast.Add):
+                v = self.ev(s.value, st)
+                if v is not None and v[0] == 'coll':
+                    st.env[s.target.id] = ('coll', st.env[s.target.id][1] + v[1])
+                    return [st]
+            st.taint = st.taint or f'`{s.target.id}` updated in place'
+        elif isinstance(s, ast.Expr) and isinstance(s.value, ast.Call) and isinstance(s.value.func, ast.Attribute) and isinstance(s.value.func.value, ast.Name):
+            nm = s.value.func.value.id
+            cur = st.env.get(nm)
+            if cur is not None and cur[0] == 'coll':
+                meth = s.value.func.attr
+                arg = self.ev(s.value.args[0], st) if len(s.value.args) == 1 and not s.value.keywords else None
+                if meth == 'extend' and arg is not None and arg[0] == 'coll':
+                    st.env[nm] = ('coll', cur[1] + arg[1])
+                elif meth == 'append' and arg is not None and arg[0] == 'tab':
+                    st.env[nm] = ('coll', cur[1] + (('one', arg[1]),))
+                else:
+                    st.taint = st.taint or f'`{nm}.{meth}(...)`'
+        return [st]
+
+    # ---- loops ---------------------------------------------------------------------------------------------------------
+    def loop(self, s: ast.For, st: AgState) -> List[AgState]:
+        it = s.iter
+        idx_name = None
+        target = s.target
+        coll_name = None
+        if isinstance(it, ast.Call) and pf.dotted(it.func) == 'enumerate' and it.args and isinstance(target, ast.Tuple) and len(target.elts) == 2 \
+                and isinstance(target.elts[0], ast.Name):
+            plain_enum = len(it.args) == 1 and not it.keywords
+            idx_name = target.elts[0].id if plain_enum else None
+            if isinstance(it.args[0], ast.Name):
+                coll_name = it.args[0].id
+            it = it.args[0]
+            target = target.elts[1]
+        m = self.ev(it, st)
+        stores = [n for n in ast.walk(s) if isinstance(n, ast.Subscript) and isinstance(n.ctx, ast.Store) and isinstance(n.value, ast.Name)
+                  and n.value.id in st.env and st.env[n.value.id][0] == 'coll']
+        touched = {n.id for b in s.body for n in ast.walk(b) if isinstance(n, ast.Name) and isinstance(n.ctx, ast.Store)} & self.entity_names(st)
+        if m is None or m[0] != 'coll' or not isinstance(target, ast.Name):
+            if stores or touched or self.emissions_in(s):
+                st.taint = st.taint or f'loop over `{pf.nsrc(s.iter)[:50]}` changes tables / emits'
+                for em in self.emissions_in(s):
+                    self.emit(em, st)
+                return [st]
+            probe = st.copy()
+            for b in s.body:
+                self.escapes(b, probe)
+            st.taint = st.taint or probe.taint
+            if self.mentions_entities(s.iter, st) and any(isinstance(x, (ast.If, ast.Assert, ast.Raise)) for b in s.body for x in ast.walk(b)):
+                st.taint = st.taint or f'checks inside a loop over `{pf.nsrc(s.iter)[:50]}`, an iterable this analysis does not understand'
+            return [st]
+        if touched or self.emissions_in(s) or s.orelse:
+            st.taint = st.taint or f'loop over `{pf.nsrc(s.iter)[:50]}` re-assigns table variables'
+            return [st]
+        cid = self.elt_id(m)
+        body_in = st.copy()
+        body_in.env[target.id] = ('tab', cid)
+        if idx_name and coll_name:
+            body_in.env[idx_name] = ('idx', coll_name)
+        body_in.stored = None
+        outs = self.block(s.body, [body_in])
+        if not outs:
+            st.taint = st.taint or 'loop body never completes'
+            return [st]
+        rebuild = any(o.stored is not None for o in outs)
+        if stores and not rebuild and not all(o.taint for o in outs):
+            st.taint = st.taint or 'store into a table collection not understood'
+            return [st]
+        if not rebuild:
+            # guard loop: facts about the generic element hold for every member of the collection
+            res: List[AgState] = []
+            for o in outs:
+                n = st.copy()
+                n.flags = dict(o.flags)
+                n.taint = o.taint
+                n.label = o.label
+                for (c, ms) in o.facts:
+                    if ('one', cid) in ms:
+                        n.add_fact(c, [x for x in ms if x != ('one', cid)] + list(m[1]))
+                    else:
+                        n.add_fact(c, ms)
+                res.append(n)
+            # members of the same flag valuation took different routes through the body: only the common facts survive
+            grouped: Dict[tuple, AgState] = {}
+            for n in res:
+                k = (tuple(sorted(n.flags.items())), n.taint)
+                if k in grouped:
+                    g = grouped[k]
+                    g.facts = {f for f in g.facts if any(f[0] == h[0] and f[1] <= h[1] for h in n.facts)}
+                else:
+                    grouped[k] = n
+            outs2 = list(grouped.values())
+            # the collection may be empty: then the body's decisions were never taken.  Flag valuations no surviving body path has
+            # continue with the facts known before the loop (agreement over the empty collection holds vacuously)
+            names = sorted({k for o in outs2 for k in o.flags if k not in st.flags and k.isidentifier()})
+            if 0 < len(names) <= 4:
+                import itertools
+                for vals in itertools.product([True, False], repeat=len(names)):
+                    val = dict(zip(names, vals))
+                    if not any(all(o.flags.get(k, v) == v for k, v in val.items()) for o in outs2):
+                        z = st.copy()
+                        z.flags.update(val)
+                        for mm in m[1]:
+                            if mm[0] in ('all', 'tail'):
+                                z.flags['empty:' + str(mm[1])] = True
+                        outs2.append(z)
+            return outs2
+        # rebuild loop:  for i, t in enumerate(L): L[i] = f(t)
+        if coll_name is None or idx_name is None:
+            st.taint = st.taint or 'collection rebuilt by an unrecognised loop'
+            return [st]
+        n = st.copy()
+        kept = [o for o in outs if o.stored is None]
+        built = [o for o in outs if o.stored is not None]
+        for o in outs:
+            n.taint = n.taint or o.taint
+            extra = {k: v for k, v in o.flags.items() if st.flags.get(k) != v}
+            if extra:
+                n.taint = n.taint or 'a rebuild loop decides on a flag'
+        kinds = {o.stored for o in built}
+        if len(kinds) != 1:
+            n.taint = n.taint or 'members are rebuilt in different ways'
+            return [n]
+        how = next(iter(kinds))     # ('rebuilt', method, preserved comps, new comps, problem)
+        new_cid = self.fresh(coll_name)
+        new_member = ('all', new_cid)
+        members: List[tuple] = [new_member]
+        if how[4]:
+            n.notes = n.notes + (how[4],)
+        if kept:
+            # some members keep their old value: they are still described by the old members
+            members += list(m[1])
+            conds = sorted({' and '.join(o.label[len(st.label):]) or 'some path' for o in kept})
+            n.notes = n.notes + (f'members of `{coll_name}` for which `{conds[0]}` are passed on as they are, not rebuilt by `{how[1]}`',)
+        # facts the method preserves: every old member agrees with ... its rebuilt version; so agreement over the old collection carries over
+        keepc = set()
+        for k in how[2]:
+            keepc |= set(_close(k))
+        for (c, ms) in list(n.facts):
+            if c in keepc and all(x in ms or self._covers(ms, x) for x in m[1]):
+                n.add_fact(c, list(ms) + [new_member])
+        for c in how[3]:
+            n.add_fact(c, [new_member])
+        if how[5]:
+            n.taint = n.taint or how[5]
+        n.env[coll_name] = ('coll', tuple(members))
+        return [n]
+
+    @staticmethod
+    def _covers(ms: FrozenSet[tuple], x: tuple) -> bool:
+        cid = x[1][5:] if x[0] == 'one' and isinstance(x[1], str) and x[1].startswith('head:') else x[1] if x[0] in ('tail', 'all') else None
+        return cid is not None and ('all', cid) in ms
+
+    # ---- L[i] = t.select(**F[i]) ---------------------------------------------------------------------------------------------
+    def rebuilt(self, st: AgState, value: ast.AST) -> tuple:
+        """('rebuilt', text, preserved comps, newly established comps, problem note, taint)."""
+        txt = pf.nsrc(value)[:60]
+        if not (isinstance(value, ast.Call) and isinstance(value.func, ast.Attribute)):
+            return ('rebuilt', txt, (), (), None, f'member rebuilt from `{txt}`')
+        recv = self.ev(value.func.value, st)
+        meth = value.func.attr
+        if recv is None or recv[0] != 'tab' or not str(recv[1]).startswith('elt:'):
+            return ('rebuilt', txt, (), (), None, f'member rebuilt from `{txt}`')
+        keep = PRESERVES.get((self.kind, meth))
+        if keep is None:
+            return ('rebuilt', txt, (), (), None, f'member rebuilt by the unrecognised method `{meth}`')
+        new: Tuple[str, ...] = ()
+        problem = None
+        taint = None
+        if self.kind == 'table' and meth == 'select':
+            new = ('keyfirst',)
+            # select(**F[i]): the value fields are exactly the entries of the dict F[i], in insertion order
+            if not value.args and len(value.keywords) == 1 and value.keywords[0].arg is None and isinstance(value.keywords[0].value, ast.Subscript) \
+                    and isinstance(value.keywords[0].value.value, ast.Name) and isinstance(value.keywords[0].value.slice, ast.Name) \
+                    and st.env.get(value.keywords[0].value.slice.id, ('',))[0] == 'idx':
+                fam = value.keywords[0].value.value.id
+                coll = st.env[value.keywords[0].value.slice.id][1]
+                status, why = self.dict_family(fam, coll)
+                if status == 'ok':
+                    new = ('keyfirst', 'row_value.dtype')
+                elif status == 'bad':
+                    problem = why
+                else:
+                    taint = why
+            else:
+                taint = f'fields selected by `{txt}` not analysed'
+        return ('rebuilt', txt, tuple(keep), new, problem, taint)
+
+    def dict_family(self, fam: str, coll: str) -> Tuple[str, str]:
+        """Do the dicts fam[0..n-1] (one per member of `coll`) have the same keys in the same order with values of one type per key?"""
+        ck = (fam, coll)
+        if ck in self.family_cache:
+            return self.family_cache[ck]
+        r = self._dict_family(fam, coll)
+        self.family_cache[ck] = r
+        return r
+
+    def _dict_family(self, fam: str, coll: str) -> Tuple[str, str]:
+        fn = self.fn
+        par = self.mod.parents()
+        defs = [s for s in ast.walk(fn) if isinstance(s, ast.Assign) and len(s.targets) == 1 and isinstance(s.targets[0], ast.Name) and s.targets[0].id == fam]
+        if len(defs) != 1:
+            return 'und', f'`{fam}` is not defined exactly once'
+        d = defs[0].value
+        ok_init = False
+        if isinstance(d, ast.ListComp) and len(d.generators) == 1 and not d.generators[0].ifs:
+            e_ok = (isinstance(d.elt, ast.Dict) and not d.elt.keys) or (isinstance(d.elt, ast.Call) and pf.dotted(d.elt.func) == 'dict' and not d.elt.args and not d.elt.keywords)
+            it = d.generators[0].iter
+            it_ok = (isinstance(it, ast.Name) and it.id == coll) or (isinstance(it, ast.Call) and pf.dotted(it.func) == 'range' and len(it.args) == 1
+                                                                    and pf.nsrc(it.args[0]) == f'len({coll})')
+            ok_init = e_ok and it_ok
+        if not ok_init:
+            return 'und', f'`{fam}` is not initialised as one empty dict per member of `{coll}`'
+        uses = [n for n in ast.walk(fn) if isinstance(n, ast.Name) and n.id == fam and n is not defs[0].targets[0]]
+        stores = []
+        for u in uses:
+            p = par.get(u)
+            pp = par.get(p) if p is not None else None
+            if isinstance(p, ast.Subscript) and p.value is u and isinstance(pp, ast.Subscript) and pp.value is p and isinstance(pp.ctx, ast.Store):
+                stores.append(pp)
+            elif isinstance(p, ast.Subscript) and p.value is u and isinstance(p.ctx, ast.Load) and (
+                    (isinstance(pp, ast.keyword) and pp.arg is None) or isinstance(pp, ast.Compare)
+                    or (isinstance(pp, ast.Call) and pf.dotted(pp.func) in BLIND_CALLS)):
+                continue   # read: select(**F[i]), list(F[i]), comparisons
+            elif isinstance(p, ast.Subscript) and p.value is u and isinstance(p.ctx, ast.Load):
+                # F[i].something / F[i] passed on
+                if isinstance(pp, ast.Attribute) and pp.attr in ('keys', 'values', 'items', 'get'):
+                    continue
+                return 'und', f'`{fam}[...]` is used in `{pf.nsrc(pp)[:50]}`'
+            else:
+                return 'und', f'`{fam}` is used in `{pf.nsrc(p)[:50]}`'
+        if not stores:
+            return 'und', f'`{fam}` is never filled'
+        for stn in stores:
+            idx = stn.value.slice
+            key = stn.slice
+            asg = par.get(stn)
+            if not (isinstance(asg, ast.Assign) and len(asg.targets) == 1 and asg.targets[0] is stn and isinstance(idx, ast.Name)):
+                return 'und', f'unrecognised store `{pf.nsrc(asg)[:60]}`'
+            inner = par.get(asg)
+            cond = None
+            if isinstance(inner, ast.If) and isinstance(par.get(inner), ast.For):
+                cond = inner
+                inner = par.get(inner)
+            if not (isinstance(inner, ast.For) and isinstance(inner.target, ast.Name) and inner.target.id == idx.id):
+                return 'und', f'store `{pf.nsrc(asg)[:60]}` is not the body of a loop over the members'
+            if cond is not None:
+                inner_locals = {n.id for b in inner.body for n in ast.walk(b) if isinstance(n, ast.Name) and isinstance(n.ctx, ast.Store)} | {idx.id}
+                if not (pf.names_in(cond.test) & inner_locals):
+                    pass    # the same decision for every member: the dicts stay uniform
+                elif self.type_blind(cond.test) and asg in cond.body:
+                    return 'bad', (f'`{pf.nsrc(asg)[:70]}` is executed only for the members with `{pf.nsrc(cond.test)[:50]}`: the other tables get no entry for that field, '
+                                   f'so the per-table projections `{fam}[i]` no longer have the same fields')
+                else:
+                    return 'und', f'conditional store `{pf.nsrc(asg)[:60]}`'
+            it = inner.iter
+            if not (isinstance(it, ast.Call) and pf.dotted(it.func) == 'range' and len(it.args) == 1 and pf.nsrc(it.args[0]) == f'len({coll})'):
+                return 'und', f'the filling loop runs over `{pf.nsrc(it)[:40]}`, not over every member of `{coll}`'
+            if any(isinstance(x, (ast.Continue, ast.Break, ast.Return)) for x in ast.walk(inner)):
+                return 'und', 'the filling loop can be left early'
+            if idx.id in pf.names_in(key):
+                return 'bad', f'the field name `{pf.nsrc(key)}` stored into `{fam}[{idx.id}]` depends on the member: the per-table dicts get different fields'
+            outer = par.get(inner)
+            if not isinstance(outer, ast.For):
+                return 'und', 'the filling loop is not nested in a loop over the fields'
+            # the value: one type for every member i
+            tag = self.value_tag(asg.value, idx.id, outer, inner)
+            if tag[0] == 'bad':
+                return 'bad', tag[1]
+            if tag[0] == 'und':
+                return 'und', tag[1]
+        return 'ok', ''
+
+    def value_tag(self, v: ast.AST, ivar: str, outer: ast.For, inner: ast.For) -> Tuple[str, str]:
+        """Type of the value stored for member `ivar`: ('uni', call) when it is the common type produced by one unify_exprs call."""
+        local: Dict[str, ast.AST] = {}
+        unified: Dict[str, Tuple[ast.Call, str]] = {}   # name -> (unify call, flag name)
+        guard_ok: Set[str] = set()
+        body = outer.body
+        for s in body:
+            if s is inner:
+                break
+            if isinstance(s, ast.Assign) and len(s.targets) == 1:
+                t = s.targets[0]
+                if isinstance(t, ast.Name):
+                    local[t.id] = s.value
+                elif isinstance(t, ast.Tuple) and len(t.elts) == 2 and isinstance(t.elts[0], ast.Starred) and isinstance(t.elts[0].value, ast.Name) \
+                        and isinstance(t.elts[1], ast.Name) and isinstance(s.value, ast.Call) and (pf.dotted(s.value.func) or '').split('.')[-1] == 'unify_exprs':
+                    unified[t.elts[0].value.id] = (s.value, t.elts[1].id)
+            if isinstance(s, ast.If) and not s.orelse and ic._always_exits(s.body) and any(isinstance(x, ast.Raise) for x in s.body):
+                if isinstance(s.test, ast.UnaryOp) and isinstance(s.test.op, ast.Not) and isinstance(s.test.operand, ast.Name):
+                    guard_ok.add(s.test.operand.id)
+            if isinstance(s, ast.Assert) and isinstance(s.test, ast.Name):
+                guard_ok.add(s.test.id)
+
+        def only_raw(e: ast.AST) -> bool:
+            """e is computed from the raw per-table expressions and from nothing a unification produced."""
+            seen: Set[str] = set()
+            frontier = set(pf.names_in(e))
+            raw_seen = False
+            for _ in range(8):
+                nxt: Set[str] = set()
+                for n in frontier:
+                    if n in seen:
+                        continue
+                    seen.add(n)
+                    if n.startswith('__raw__'):
+                        raw_seen = True
+                    if n in unified:
+                        return False
+                    if n in local:
+                        nxt |= pf.names_in(local[n])
+                frontier = nxt
+            return raw_seen
+
+        def tag(e: ast.AST, depth: int = 0) -> Tuple[str, str]:
+            r = tag1(e, depth)
+            if r[0] == 'und' and only_raw(e):
+                return ('raw', '')
+            return r
+
+        def tag1(e: ast.AST, depth: int = 0) -> Tuple[str, str]:
+            if depth > 6:
+                return ('und', 'too deep')
+            if isinstance(e, ast.Name):
+                if e.id.startswith('__raw__'):
+                    return ('raw', '')
+                if e.id in unified:
+                    call, flag = unified[e.id]
+                    if flag not in guard_ok:
+                        return ('bad', f'the result of `{pf.nsrc(call)[:50]}` is used although `{flag}` is never checked: when the fields cannot be unified the expressions come back un-coerced')
+                    return ('uni', e.id)
+                if e.id in local:
+                    return tag(local[e.id], depth + 1)
+                return ('und', f'`{e.id}` not understood')
+            if isinstance(e, ast.Subscript):
+                b = tag(e.value, depth + 1)
+                return b if b[0] in ('uni', 'bad', 'und', 'raw') else ('und', pf.nsrc(e))
+            if isinstance(e, ast.Attribute) and e.attr == 'dtype':
+                return tag(e.value, depth + 1)
+            if isinstance(e, ast.Call):
+                d = pf.dotted(e.func) or ''
+                last = d.split('.')[-1]
+                if last in ('missing', 'null') and len(e.args) == 1:
+                    return tag(e.args[0], depth + 1)
+                if last == 'dict' and len(e.args) == 1 and isinstance(e.args[0], ast.Call) and pf.dotted(e.args[0].func) == 'zip' and len(e.args[0].args) == 2:
+                    return tag(e.args[0].args[1], depth + 1)
+                if isinstance(e.func, ast.Attribute) and e.func.attr == 'get' and 1 <= len(e.args) <= 2:
+                    a = tag(e.func.value, depth + 1)
+                    if len(e.args) == 1:
+                        return ('bad', f'`{pf.nsrc(e)}` is None for a member without the field') if a[0] == 'uni' else a
+                    b = tag(e.args[1], depth + 1)
+                    if a[0] == 'uni' and b[0] == 'uni':
+                        return a if a[1] == b[1] else ('bad', f'`{pf.nsrc(e)}`: value and default come from different unifications')
+                    for x in (a, b):
+                        if x[0] == 'bad':
+                            return x
+                    for x in (a, b):
+                        if x[0] == 'raw':
+                            return x
+                    return a if a[0] == 'und' else b
+                if isinstance(e.func, ast.Attribute) and e.func.attr == 'values' and not e.args:
+                    return tag(e.func.value, depth + 1)
+                return ('und', f'`{pf.nsrc(e)[:50]}` not understood')
+            return ('und', f'`{pf.nsrc(e)[:50]}` not understood')
+
+        # the loop variables of the outer loop that carry the raw (per-table, un-unified) expressions
+        raw = {n.id for n in ast.walk(outer.target) if isinstance(n, ast.Name)}
+        for name in raw:
+            local.setdefault(name, ast.Name(id='__raw__' + name, ctx=ast.Load()))
+
+        r = tag(v)
+        if r[0] == 'uni':
+            return ('uni', r[1])
+        if r[0] == 'raw':
+            return ('bad', f'`{pf.nsrc(v)[:60]}` stores the tables\' own field expressions (or a type taken from them), not the expressions unify_exprs coerced to the common type: '
+                           f'a field that is int32 in one table and float64 in another keeps both types')
+        return r
+
+    # ---- emission ------------------------------------------------------------------------------------------------------
+    def emit(self, call: ast.Call, st: AgState) -> None:
+        node = self.nodes[(pf.dotted(call.func) or '').split('.')[-1]]
+        members: List[tuple] = []
+        problem = None
+        r = node.cls.resolve('__init__')
+        lays = ic.layouts(node.cls)
+        if r is None or len(lays) != 1:
+            raise AnalysisError(f'{node.cls.key()}: constructor / child layout not recognised')
+        ia = r[1].args
+        pos_params = [x.arg for x in ia.posonlyargs + ia.args][1:]
+        child_names = {sg.name for sg in lays[0].segs}
+        bound: List[Tuple[str, ast.AST, bool]] = []
+        for i, a in enumerate(call.args):
+            if isinstance(a, ast.Starred):
+                if ia.vararg is not None and i >= len(pos_params):
+                    bound.append((ia.vararg.arg, a.value, True))
+                else:
+                    problem = f'starred argument `{pf.nsrc(a)[:40]}`'
+            elif i < len(pos_params):
+                bound.append((pos_params[i], a, False))
+            elif ia.vararg is not None:
+                bound.append((ia.vararg.arg, a, False))
+            else:
+                problem = 'too many arguments'
+        for kw in call.keywords:
+            if kw.arg is None:
+                problem = '**kwargs'
+            else:
+                bound.append((kw.arg, kw.value, False))
+        for prm, a, star in bound:
+            if prm not in child_names:
+                continue
+            v = self.ev(a, st)
+            if v is None:
+                problem = f'child argument `{pf.nsrc(a)[:50]}` not understood'
+            elif v[0] == 'coll':
+                members += list(v[1])
+            elif v[0] == 'tab' and not star:
+                members.append(('one', v[1]))
+            else:
+                problem = f'child argument `{pf.nsrc(a)[:50]}` not understood'
+        if not members and not problem:
+            problem = 'no children recognised'
+        where = f'{self.mod.rel}::{self.qual}::{node.cls.name}'
+        path = '\x00PATH\x00'
+        private = self.fn.name.startswith('_') and not self.fn.name.startswith('__')
+        for comp in node.comps:
+            key = f'{where}.{comp} [{path}]'
+            if problem:
+                self.raw.append((call, AgSiteResult(key, self.mod.path, call.lineno, 'und', problem), dict(st.flags)))
+                continue
+            alts = IMPLIED_BY[node.kind][comp]
+            if any(all(st.covered(c, members) for c in alt) for alt in alts):
+                self.raw.append((call, AgSiteResult(key, self.mod.path, call.lineno, 'ok', ''), dict(st.flags)))
+                continue
+            opaque = [str(m[1]) for m in members if m[0] == 'one' and m[1] in st.opaque]
+            why = st.taint or (f'`{opaque[0]}` results from a call this analysis has no summary for' if opaque else None) or \
+                ('private helper: the guards may live in its callers' if private else None)
+            if why:
+                self.raw.append((call, AgSiteResult(key, self.mod.path, call.lineno, 'und', why), dict(st.flags)))
+                continue
+            have = sorted({c for (c, ms) in st.facts if all(st.covered(c, members) for _ in [0]) and not c.endswith(('.nameset',))})
+            need = ' or '.join('{' + ', '.join(alt) + '}' for alt in alts)
+            notes = ('; ' + '; '.join(st.notes)) if st.notes else ''
+            msg = (f'`{pf.nsrc(call)[:70]}` is emitted on the path [{path}] without the children being known to agree on the {WHAT_DIFFERS.get(comp, comp)}: '
+                   f'the engine ({node.where}) requires `{comp}` of every child to equal that of the first, python\'s {node.cls.name}._compute_type never compares the children '
+                   f'and the front end reports a type for an IR the engine cannot type. '
+                   f'Established on this path for all children: {{{", ".join(have) or "nothing"}}}; needed: {need}{notes} ({WITNESS.get(comp, "")})')
+            lacks = ' / '.join('{' + ', '.join(c for c in alt if not st.covered(c, members)) + '}' for alt in alts)
+            self.raw.append((call, AgSiteResult(key + ' lacks ' + lacks, self.mod.path, call.lineno, 'bad', msg), dict(st.flags)))
+
+    @staticmethod
+    def show_flag(k: str, v: bool) -> str:
+        if k.startswith('eq:'):
+            _, comp, pair = k.split(':', 2)
+            a, b = pair.split('|')
+            return f'{a}.{comp} {"==" if v else "!="} {b}.{comp}'
+        if k.startswith('allsame:'):
+            _, comp, ms = k.split(':', 2)
+            return f'{"all" if v else "not all"} {comp} equal'
+        return k if v else f'not {k}'
+
+    def run(self) -> List[AgSiteResult]:
+        self.block(self.fn.body, [self.entry()])
+        # Key of an instance: site, obligation, the boolean parameters decided on the path and - for a violation - which of the facts
+        # that would determine the component are missing.  (The full path, including recognised comparisons, is in the message.)
+        by_call: Dict[int, List[Tuple[AgSiteResult, Dict[str, bool]]]] = {}
+        for call, r, flags in self.raw:
+            by_call.setdefault(id(call), []).append((r, flags))
+        for lst in by_call.values():
+            keys = set()
+            for _, fl in lst:
+                keys |= set(fl)
+            varying = sorted(k for k in keys if len({fl.get(k) for _, fl in lst}) > 1 and 'elt:' not in k)
+            all_ok: Dict[str, bool] = {}
+            for r, fl in lst:
+                base = r.key.split(' lacks ')[0]
+                all_ok[base] = all_ok.get(base, True) and r.status == 'ok'
+            done: Set[str] = set()
+            for r, fl in lst:
+                full = ' & '.join(self.show_flag(k, fl[k]) for k in varying if k in fl) or 'every path'
+                names = ' & '.join(self.show_flag(k, fl[k]) for k in sorted(fl) if k.isidentifier()) or 'every path'
+                if all_ok[r.key.split(' lacks ')[0]]:
+                    names = 'every path'
+                r.key = r.key.replace('\x00PATH\x00', names)
+                r.msg = r.msg.replace('\x00PATH\x00', full)
+                if (r.key, r.status) in done:
+                    continue
+                done.add((r.key, r.status))
+                self.results.append(r)
+        return self.results
+
+
+AGREE_QUICK_FILES = ('hail/python/hail/table.py', 'hail/python/hail/matrixtable.py')
+
+
+def children_agreement_sites(table: ic.Table, thorough: bool = False) -> Tuple[List[AgSiteResult], List[AgreeNode], List[str], int]:
+    """Every front-end emission (outside hail/ir) of a node whose children must agree, decided per obligation and per path."""
+    from .common import read_repo
+    nodes, notes = agreement_nodes(table)
+    if not nodes:
+        raise AnalysisError(f'{TYPECHECK_SCALA}: no relational node with a cross-child agreement requirement found (TableUnion / MatrixUnionRows arms vanished?)')
+    by_name = {n.cls.name: n for n in nodes}
+    rels = [r for r in (pf.walk_py([HAIL_PY]) if thorough else AGREE_QUICK_FILES) if not r.startswith(ic.IR_DIR)]
+    results: Dict[str, AgSiteResult] = {}
+    n_fn = 0
+    for rel in rels:
+        txt = read_repo(rel)
+        if not any((n + '(') in txt for n in by_name):
+            continue
+        mod = pf.load(rel)
+        fns: Dict[int, pf.FuncDef] = {}
+        for call in _calls_of(mod, list(by_name)):
+            fn = mod.enclosing_func(call)
+            if fn is None:
+                raise AnalysisError(f'{rel}:{call.lineno}: {pf.nsrc(call)[:40]} emitted at module level')
+            # emission inside a nested function / lambda: analyse the outermost function
+            fns[id(fn)] = fn
+        for fn in fns.values():
+            qual = mod.qualname(fn)
+            kinds = {by_name[(pf.dotted(c.func) or '').split('.')[-1]].kind for c in _calls_of(mod, list(by_name)) if mod.enclosing_func(c) is fn}
+            if len(kinds) != 1:
+                raise AnalysisError(f'{rel}::{qual}: emits table and matrix nodes that need agreement - not analysed')
+            kind = next(iter(kinds))
+            n_fn += 1
+            for r in AgreeFlow(mod, fn, qual, by_name, kind).run():
+                prev = results.get(r.key)
+                rank = {'ok': 0, 'und': 1, 'bad': 2}
+                if prev is None or rank[r.status] > rank[prev.status]:
+                    results[r.key] = r
+    return list(results.values()), nodes, notes, n_fn
